@@ -4,8 +4,10 @@ from __future__ import annotations
 import ast
 
 from ..core import Ctx
-from ..match import arg, call_name, calls, facts_at, is_param, local_defs, resolve, single_def, stores
-from ..model import AnalysisError, FuncInfo, chain, const_value, enclosing_stmt, norm, strip_cast, walk_no_nested
+from ..localnames import load_table
+from ..match import _atoms_with_polarity, arg, call_name, calls, fact_of, facts_at, is_param, local_defs, resolve, single_def, stores
+from ..model import (NOCONST, AnalysisError, FuncInfo, chain, clone, const_value, enclosing_stmt, norm, parent, strip_cast,
+                     walk_no_nested)
 
 LEVEL = "other"
 EXPLANATION = (
@@ -18,13 +20,20 @@ EXPLANATION = (
     "with one caller; relay-side create/extend pairing by cache number, and the relay installs relay_from_to[..] only under the "
     "to/from circuit ids of its own popped CreateRequestCache, keyed from the origin's exit socket, under the dominating fact that "
     "the origin circuit still is an exit socket (an established relay hop is never rewired by an answer). "
-    "Equality of derived keys is X25519/HKDF (trusted)."
+    "Answering side: exit sockets (the keys of the hop towards the sender of a CREATE) are installed only by join_circuit, under an "
+    "in-use test of the circuit id made after the last await, and removed only by remove_exit_socket, so a CREATE never re-keys an "
+    "established hop; the EXTEND request names key and address of one and the same peer on every pair of reaching definitions. "
+    "Expressions are compared after expanding single-assignment locals and binding the parameters of helper functions that do "
+    "not exist in the reviewed tree to the caller's arguments (the helper is analysed in the caller's context, also when it "
+    "returns a decision the caller acts on). Equality of derived keys is X25519/HKDF (trusted)."
 )
 
 TC = "ipv8/messaging/anonymization/community.py"
 CR = "ipv8/messaging/anonymization/crypto.py"
 CA = "ipv8/messaging/anonymization/caches.py"
 TU = "ipv8/messaging/anonymization/tunnel.py"
+
+VERIFY = "verify_and_generate_shared_secret"
 
 
 # ------------------------------------------------------------------------------------ helpers (semantic recognition)
@@ -45,6 +54,534 @@ def _assigned_names(st: ast.stmt) -> list[str]:
     if isinstance(st, ast.AnnAssign) and isinstance(st.target, ast.Name) and st.value is not None:
         return [st.target.id]
     return []
+
+
+def _is_new(fi: FuncInfo) -> bool:
+    """fi does not exist in the reviewed tree (sa/tables/local_names.json): a helper introduced by a later change"""
+    return fi.qualname not in load_table().get(fi.module.relpath, {})
+
+
+def _pargs(call: ast.Call, names: list[str]) -> list[ast.expr | None] | None:
+    """The arguments of `call` in the order of `names` (positional or keyword); None if the call has other arguments."""
+    if len(call.args) > len(names) or any(isinstance(a, ast.Starred) for a in call.args) \
+            or any(k.arg is None or k.arg not in names[len(call.args):] for k in call.keywords):
+        return None
+    return [arg(call, i, n) for i, n in enumerate(names)]
+
+
+_BUILTIN_METHODS = frozenset(n for t in (dict, list, set, tuple, str, bytes, bytearray, int, object) for n in dir(t))
+
+
+class _View:
+    """
+    A function analysed in the context of one call: its parameters are bound to the caller's argument expressions (already
+    expanded in the caller's view).  expand() rewrites an expression into the terms of the outermost function: pure
+    single-assignment locals are replaced by their definition, bound parameters by the caller's argument, typing.cast is
+    dropped.  Two expressions with the same expansion are evaluated from the same inputs.
+    """
+
+    def __init__(self, ctx: Ctx, fi: FuncInfo, bind: dict | None = None, up: "_View | None" = None, site: ast.Call | None = None):
+        self.ctx, self.fi, self.cfg = ctx, fi, ctx.cfg(fi)
+        self.bind = bind or {}
+        self.up, self.site = up, site
+        self.extra: list = []           # facts (in the caller's terms) under which a dispatch selects this callee
+        self._targets: dict | None = None
+        self._views: dict = {}
+
+    def stack(self) -> list[FuncInfo]:
+        out, v = [], self
+        while v is not None:
+            out.append(v.fi)
+            v = v.up
+        return out
+
+    # ---- expressions
+    def expand(self, e: ast.AST | None, *, keep: frozenset = frozenset(), env: dict | None = None, depth: int = 8):
+        return None if e is None else self._x(e, depth, frozenset(keep), env or {})
+
+    def xn(self, e: ast.AST | None, **kw) -> str | None:
+        return None if e is None else norm(self.expand(e, **kw))
+
+    def _x(self, e, depth: int, keep: frozenset, env: dict):
+        if not isinstance(e, ast.AST):
+            return e
+        e = strip_cast(e)
+        if isinstance(e, ast.Name):
+            if isinstance(e.ctx, ast.Load) and e.id not in keep:
+                if e.id in env:
+                    return clone(env[e.id])
+                if e.id in self.bind and not local_defs(self.fi, e.id):
+                    return clone(self.bind[e.id])
+                if depth > 0:
+                    d = self.one_def(e.id)
+                    if d is not None and d[1] is None and not isinstance(d[0], (ast.Yield, ast.YieldFrom, ast.Await)):
+                        return self._x(d[0], depth - 1, keep | {e.id}, env)
+                    if d is not None and d[1] is not None and self._plain_unpack(e.id, d[1]):
+                        # `a, b = seq`: a is seq[0] (no starred target before it)
+                        return ast.Subscript(value=self._x(d[0], depth - 1, keep | {e.id}, env), slice=ast.Constant(value=d[1]), ctx=ast.Load())
+            return clone(e)
+        if isinstance(e, (ast.Lambda, ast.GeneratorExp, ast.ListComp, ast.SetComp, ast.DictComp)):
+            return clone(e)     # own scopes: left as written
+        if isinstance(e, ast.Call) and depth > 0:
+            kv = self.helper_of(e)
+            if kv is not None:
+                vals = kv.result_values()
+                if vals is not None and len(vals) == 1:
+                    # a new helper that returns one expression or else None / False: where its result is used as an object
+                    # it is that expression (the caller has excluded the constant, or fails on it)
+                    return kv._x(vals[0], depth - 1, frozenset(), {})
+        new = type(e)()
+        for f in e._fields:
+            if not hasattr(e, f):
+                continue
+            v = getattr(e, f)
+            setattr(new, f, [self._x(x, depth, keep, env) for x in v] if isinstance(v, list) else self._x(v, depth, keep, env))
+        for a in e._attributes:
+            if hasattr(e, a):
+                setattr(new, a, getattr(e, a))
+        return new
+
+    def one_def(self, name: str):
+        """single_def(), also when the local is assigned the textually same call-free expression at several places (inlined copies)"""
+        d = single_def(self.fi, name)
+        if d is not None or is_param(self.fi, name):
+            return d
+        defs = local_defs(self.fi, name)
+        if len(defs) > 1 and all(val is not None and i is None for _, val, i in defs) and len({norm(val) for _, val, _i in defs}) == 1 \
+                and not any(isinstance(x, (ast.Call, ast.Await, ast.Yield, ast.YieldFrom, ast.NamedExpr)) for x in ast.walk(defs[0][1])) \
+                and name not in {x.id for x in ast.walk(defs[0][1]) if isinstance(x, ast.Name)}:
+            return defs[0][1], None
+        return None
+
+    def _plain_unpack(self, name: str, idx: int) -> bool:
+        st = local_defs(self.fi, name)[0][0]
+        for t in getattr(st, "targets", None) or [getattr(st, "target", None)]:
+            if isinstance(t, (ast.Tuple, ast.List)) and idx < len(t.elts) and isinstance(t.elts[idx], ast.Name) and t.elts[idx].id == name:
+                return not any(isinstance(x, ast.Starred) for x in t.elts[:idx])
+        return False
+
+    def result_values(self) -> list[ast.AST] | None:
+        """The non-constant values this function can return (None / False / True constants and falling off the end left out)."""
+        out = []
+        for r in walk_no_nested(self.fi.node):
+            if isinstance(r, ast.Return) and r.value is not None:
+                cv = const_value(strip_cast(r.value))
+                if not (cv is None or cv is False or cv is True):
+                    out.append(r.value)
+        return out
+
+    # ---- calls of helpers that are not part of the reviewed tree
+    def bind_call(self, k: FuncInfo, c: ast.Call, ref: ast.AST | None = None) -> "_View | None":
+        """view of k for the call c; ref: the expression that denotes k (default c.func; differs for dispatched calls)"""
+        ref = strip_cast(ref if ref is not None else c.func)
+        a = k.node.args
+        if a.vararg or a.kwarg or any(isinstance(x, ast.Starred) for x in c.args) or any(kw.arg is None for kw in c.keywords):
+            return None
+        pos = [x.arg for x in a.posonlyargs + a.args]
+        static = any(chain(d) == "staticmethod" for d in k.node.decorator_list)
+        bind = {}
+        if k.cls is not None and not static and isinstance(ref, ast.Attribute) and pos:
+            recv = strip_cast(ref.value)
+            if not (isinstance(recv, ast.Name) and recv.id in ("self", "cls") and self.fi.cls is not None):
+                if any(chain(d) == "classmethod" for d in k.node.decorator_list):
+                    return None
+                bind[pos[0]] = self.expand(recv)       # a method of another object: its `self` is the receiver
+            pos = pos[1:]       # self / cls is the receiver
+        if len(c.args) > len(pos):
+            return None
+        bind.update({p: self.expand(x) for p, x in zip(pos, c.args)})
+        names = pos + [x.arg for x in a.kwonlyargs]
+        for kw in c.keywords:
+            if kw.arg not in names or kw.arg in bind:
+                return None
+            bind[kw.arg] = self.expand(kw.value)
+        allpos = [x.arg for x in a.posonlyargs + a.args]
+        defaults = dict(zip(allpos[len(allpos) - len(a.defaults):], a.defaults)) if a.defaults else {}
+        defaults.update({x.arg: d for x, d in zip(a.kwonlyargs, a.kw_defaults) if d is not None})
+        for p in names:
+            if p not in bind:
+                if p not in defaults:
+                    return None
+                bind[p] = clone(defaults[p])
+        return _View(self.ctx, k, bind, self, c)
+
+    def _callable_alternatives(self, f: ast.AST, depth: int = 3) -> list[tuple[ast.AST, list]] | None:
+        """
+        The function references a callee expression can evaluate to, each with the facts under which it is selected:
+        ``a if c else b``, ``{k1: a, k2: b}[e]``, ``{..}.get(e, d)``, a single-assignment local holding one of these.
+        None: not such a dispatch.
+        """
+        f = strip_cast(f)
+        if depth <= 0:
+            return None
+        if isinstance(f, ast.Name):
+            sd = single_def(self.fi, f.id)
+            if sd is not None and sd[1] is None:
+                return self._callable_alternatives(sd[0], depth - 1)
+            return [(f, [])] if not is_param(self.fi, f.id) and not local_defs(self.fi, f.id) else None
+        if isinstance(f, ast.Attribute):
+            return [(f, [])]
+        if isinstance(f, ast.IfExp):
+            a, b = self._callable_alternatives(f.body, depth - 1), self._callable_alternatives(f.orelse, depth - 1)
+            if a is None or b is None:
+                return None
+            return [(r, fs + _atoms_with_polarity(f.test, True)) for r, fs in a] + [(r, fs + _atoms_with_polarity(f.test, False)) for r, fs in b]
+        table = key = default = None
+        if isinstance(f, ast.Subscript):
+            table, key = resolve(self.fi, f.value), f.slice
+        elif isinstance(f, ast.Call) and isinstance(f.func, ast.Attribute) and f.func.attr == "get" and len(f.args) == 2 and not f.keywords:
+            table, key, default = resolve(self.fi, f.func.value), f.args[0], f.args[1]
+        if isinstance(table, ast.Dict) and key is not None and all(k is not None for k in table.keys):
+            out = []
+            for k, val in zip(table.keys, table.values):
+                alts = self._callable_alternatives(val, depth - 1)
+                kc = const_value(strip_cast(k))
+                if alts is None:
+                    return None
+                if kc is True or kc is False:
+                    sel = _atoms_with_polarity(key, kc)
+                else:
+                    sel = [fact_of(ast.Compare(left=key, ops=[ast.Eq()], comparators=[k]), True)]
+                out += [(r, fs + sel) for r, fs in alts]
+            if default is not None:
+                alts = self._callable_alternatives(default, depth - 1)
+                if alts is None:
+                    return None
+                out += alts
+            return out
+        return None
+
+    def _resolve_ref(self, ref: ast.AST, c: ast.Call) -> list[FuncInfo]:
+        repo = self.ctx.repo
+        try:
+            if isinstance(ref, ast.Attribute) and isinstance(ref.value, ast.Name) and ref.value.id in ("self", "cls") and self.fi.cls is not None:
+                return repo.dispatch(self.fi.cls, ref.attr)
+            if isinstance(ref, ast.Name):
+                r = repo.resolve_name(self.fi.module, ref.id)
+                return [r] if isinstance(r, FuncInfo) else []
+        except Exception:  # noqa: BLE001
+            return []
+        return []
+
+    def call_targets(self, c: ast.Call) -> list[tuple[FuncInfo, ast.AST, list]]:
+        """(callee, expression denoting it, selecting facts) for a call in this function; [] if the callee is not known"""
+        f = strip_cast(c.func)
+        direct = isinstance(f, ast.Attribute) or isinstance(f, ast.Name) and not is_param(self.fi, f.id) and not local_defs(self.fi, f.id)
+        if direct:
+            try:
+                targets = self.ctx.repo.resolve_call(self.fi, c)
+            except Exception:  # noqa: BLE001
+                targets = []
+            if not targets and isinstance(f, ast.Attribute) and f.attr not in _BUILTIN_METHODS:
+                # receiver of unknown type: a method name that exactly one function of the repository has denotes it
+                same = [g for g in self.ctx.repo.all_functions() if g.name == f.attr]
+                targets = same if len(same) == 1 and same[0].cls is not None else []
+            return [(targets[0], f, [])] if len(targets) == 1 else []
+        alts = self._callable_alternatives(f)
+        if not alts or len(alts) < 2:
+            return []
+        out = []
+        for ref, facts in alts:
+            ks = self._resolve_ref(strip_cast(ref), c)
+            if len(ks) != 1:
+                return []
+            out.append((ks[0], strip_cast(ref), facts))
+        return out
+
+    def _helper_targets(self) -> dict:
+        if self._targets is None:
+            self._targets = {}
+            if len(self.stack()) <= 4:
+                for c in calls(self.fi, nested=False):
+                    ts = [(k, ref, facts) for k, ref, facts in self.call_targets(c)
+                          if _is_new(k) and k not in self.stack()
+                          and not any(isinstance(n, (ast.Yield, ast.YieldFrom)) for n in walk_no_nested(k.node))]   # a generator call does not run the body
+                    if ts:
+                        self._targets[id(c)] = (c, ts)
+        return self._targets
+
+    def views_of(self, c: ast.AST) -> list["_View"]:
+        """views of the new helpers the call `c` (in this function) can run; several for a dispatched call"""
+        t = self._helper_targets().get(id(c))
+        if t is None or t[0] is not c:
+            return []
+        if id(c) not in self._views:
+            self._views[id(c)] = []           # re-entrancy guard while the arguments are expanded
+            out = []
+            for k, ref, facts in t[1]:
+                kv = self.bind_call(k, c, ref)
+                if kv is not None:
+                    kv.extra = list(facts)
+                    out.append(kv)
+            self._views[id(c)] = out
+        return self._views[id(c)]
+
+    def helper_of(self, c: ast.AST) -> "_View | None":
+        """view of the callee if `c` is a call (in this function) of one new, uniquely resolved, non-generator helper"""
+        t = self._helper_targets().get(id(c))
+        vs = self.views_of(c)
+        return vs[0] if len(vs) == 1 and len(t[1]) == 1 and len(self.call_targets(c)) == 1 else None
+
+    def helpers(self) -> list[tuple[ast.Call, "_View"]]:
+        return [(c, kv) for c, _ts in self._helper_targets().values() for kv in self.views_of(c)]
+
+    def helper_calls(self) -> list[tuple[ast.Call, list["_View"], bool]]:
+        """(call, views of the new helpers it can run, complete) - complete: every possible callee is one of these views"""
+        return [(c, self.views_of(c), len(self.views_of(c)) == len(self.call_targets(c))) for c, _ts in self._helper_targets().values()]
+
+    def closure(self) -> list["_View"]:
+        out = [self]
+        for _, kv in self.helpers():
+            out.extend(kv.closure())
+        return out
+
+
+def _closure_functions(views: list[_View]) -> set[FuncInfo]:
+    return {v.fi for v in views}
+
+
+# ---- facts in expanded form: (op, positive, left, right) with left/right expanded syntax trees
+def _fkey(op: str, pos: bool, ls: str, rs: str = "") -> tuple:
+    if op == "eq" and rs < ls:
+        ls, rs = rs, ls
+    return op, pos, ls, rs
+
+
+def _tkey(t: tuple) -> tuple:
+    return _fkey(t[0], t[1], norm(t[2]), norm(t[3]) if t[3] is not None else "")
+
+
+def _cv(v: _View, e: ast.AST | None):
+    """constant value of e (literal, or a module / class level constant name), NOCONST if unknown"""
+    if e is None:
+        return None
+    e = strip_cast(e)
+    c = const_value(e)
+    if c is NOCONST and isinstance(e, (ast.Name, ast.Attribute)) and not (isinstance(e, ast.Name) and (is_param(v.fi, e.id) or local_defs(v.fi, e.id))):
+        try:
+            c = v.ctx.repo.resolve_const(v.fi.module, e, v.fi.cls)
+        except Exception:  # noqa: BLE001
+            c = NOCONST
+    return c
+
+
+def _helper_call(v: _View, e: ast.AST | None) -> ast.Call | None:
+    """the call of a new helper that `e` (directly or as a single-assignment local) holds the result of"""
+    if e is None:
+        return None
+    e = strip_cast(e)
+    if isinstance(e, ast.Name):
+        sd = single_def(v.fi, e.id)
+        if sd is None or sd[1] is not None:
+            return None
+        e = strip_cast(sd[0])
+    if isinstance(e, ast.Await):
+        e = strip_cast(e.value)
+    return e if isinstance(e, ast.Call) and v.helper_of(e) is not None else None
+
+
+def _node_awaits(n) -> bool:
+    a = n.ast
+    if a is None or n.kind not in ("stmt", "cond", "loop"):
+        return False
+    if isinstance(a, (ast.AsyncWith, ast.AsyncFor)):
+        return True
+    if isinstance(a, ast.With):
+        return any(isinstance(x, ast.Await) for i in a.items for x in walk_no_nested(i.context_expr))
+    if isinstance(a, (ast.For, ast.While, ast.FunctionDef, ast.AsyncFunctionDef, ast.ClassDef)):
+        return False
+    return any(isinstance(x, ast.Await) for x in walk_no_nested(a))
+
+
+def _suspends_before(v: _View, nodes: list) -> bool:
+    """some path to `nodes` passes a point where the coroutine can be suspended (other tasks run in between)"""
+    aw = [n for n in v.cfg.nodes if _node_awaits(n)]
+    return bool(aw) and any(n in v.cfg.reach(aw) for n in nodes)
+
+
+def _fresh_facts(v: _View, site) -> list:
+    """
+    Dominating facts that were established after the last suspension point on every path to the site: the outcome of a test
+    made before an `await` says nothing about the state after it (other handlers ran in between).
+    """
+    cfg = v.cfg
+    nodes = cfg.nodes_for(site) if isinstance(site, ast.AST) else [site]
+    starts = [cfg.entry] + [n for n in cfg.nodes if _node_awaits(n)]
+    out = []
+    if not nodes:
+        return out
+    for c in cfg.nodes:
+        if c.kind != "cond" or c in nodes:
+            continue
+        for pol in (True, False):
+            if any(lab is pol for _, lab in c.succ):
+                r = cfg.reach(starts, cut_edge=lambda u, w, lab, c=c, pol=pol: u is c and lab is pol)
+                if all(n not in r for n in nodes):
+                    out.append(fact_of(c.ast, pol))
+    return out
+
+
+def _completed_loop_facts(v: _View, site) -> list:
+    """
+    After ``for x in (a, b, c): ...`` ran to completion (no break; the site is only reached through the loop's normal exit), a
+    test outcome that every iteration must have had in order to reach the next one holds for each element:
+    ``for t in (A, B): if k in t: return True`` .. afterwards k is in neither A nor B.
+    """
+    cfg = v.cfg
+    nodes = cfg.nodes_for(site) if isinstance(site, ast.AST) else [site]
+    out = []
+    if not nodes:
+        return out
+    for lp in cfg.nodes:
+        s = lp.ast
+        if lp.kind != "loop" or not isinstance(s, ast.For) or not isinstance(s.target, ast.Name):
+            continue
+        it = strip_cast(s.iter)
+        if not isinstance(it, (ast.Tuple, ast.List)) or any(isinstance(x, ast.Starred) for x in it.elts) or len(local_defs(v.fi, s.target.id)) != 1 \
+                or any(isinstance(x, (ast.Break, ast.Await)) for b in s.body for x in walk_no_nested(b)):
+            continue
+        if not all(cfg.must_pass_edges(n, lambda u, w, lab, lp=lp: u is lp and lab is False) for n in nodes):
+            continue
+        body = [w for w, lab in lp.succ if lab is True]
+        inside = cfg.reach(body, cut_nodes=[lp])
+        for c in inside:
+            if c.kind != "cond":
+                continue
+            for pol in (True, False):
+                if any(lab is pol for _, lab in c.succ) and lp not in cfg.reach(body, cut_edge=lambda u, w, lab, c=c, pol=pol: u is c and lab is pol):
+                    out += [fact_of(_subst_name(c.ast, s.target.id, x), pol) for x in it.elts]
+    return out
+
+
+def _xfacts(v: _View, site, *, depth: int = 3, local: bool = False, extra=(), fresh: bool = False) -> list[tuple]:
+    """
+    Facts that hold whenever `site` is evaluated in view v, in expanded form.  Besides the dominating CFG facts: a truthy / falsy
+    single-assignment local yields the atoms of its defining expression (``ok = a and b`` .. ``if not ok: return``), bool(x)
+    yields x, a fact on the result of a new helper (truthy / falsy / compared with a constant tag) yields the facts common to
+    all returns of the helper that are compatible with it (decision helpers), and everything that holds at the call site of a
+    helper view holds inside it (unless local).
+    """
+    out: list[tuple] = []
+    seen: set = set()
+
+    def put(t: tuple) -> bool:
+        k = _tkey(t)
+        if k in seen:
+            return False
+        seen.add(k)
+        out.append(t)
+        return True
+
+    def emit(f, d: int) -> None:
+        if not put((f.op, f.pos, v.expand(f.left), v.expand(f.right) if f.right is not None else None)) or d <= 0:
+            return
+        if f.op in ("eq", "is") and f.right is not None:
+            for side, other in ((f.left, f.right), (f.right, f.left)):
+                k = const_value(strip_cast(other))
+                b = strip_cast(side)
+                if isinstance(b, ast.Name):
+                    sd = single_def(v.fi, b.id)
+                    b = strip_cast(sd[0]) if sd is not None and sd[1] is None else b
+                if (k is True or k is False) and (isinstance(b, ast.Compare) or isinstance(b, ast.UnaryOp) and isinstance(b.op, ast.Not)
+                                                  or isinstance(b, ast.Call) and isinstance(b.func, ast.Name) and b.func.id == "bool" and len(b.args) == 1):
+                    inner = b.args[0] if isinstance(b, ast.Call) else b
+                    for g in _atoms_with_polarity(inner, (k is True) == f.pos):
+                        emit(g, d - 1)
+            for side, other in ((f.left, f.right), (f.right, f.left)):
+                hc, k = _helper_call(v, side), _cv(v, other)
+                if hc is not None and k is not NOCONST:
+                    if f.pos:
+                        may = lambda c, k=k: c is NOCONST or (c is k if f.op == "is" or k is None or isinstance(k, bool) else c == k)   # noqa: E731
+                    else:
+                        may = lambda c, k=k: c is NOCONST or not (c is k if f.op == "is" or k is None or isinstance(k, bool) else c == k)   # noqa: E731
+                    for t2 in _return_facts(v.helper_of(hc), d - 1, may, None, fresh):
+                        put(t2)
+            return
+        if f.op != "truthy":
+            return
+        e = strip_cast(f.left)
+        if isinstance(e, ast.Name):
+            sd = single_def(v.fi, e.id)
+            if sd is None or sd[1] is not None:
+                return
+            e = strip_cast(sd[0])
+        if isinstance(e, ast.Call) and isinstance(e.func, ast.Name) and e.func.id == "bool" and len(e.args) == 1 and not e.keywords:
+            e = strip_cast(e.args[0])
+        if isinstance(e, ast.Call) and isinstance(e.func, ast.Name) and e.func.id in ("any", "all") and len(e.args) == 1 and not e.keywords \
+                and (e.func.id == "all") == f.pos and isinstance(e.args[0], (ast.GeneratorExp, ast.ListComp)) and len(e.args[0].generators) == 1:
+            # not any(P(x) for x in (a, b)) : P fails for a and for b;  all(..) : P holds for each
+            g = e.args[0].generators[0]
+            it = strip_cast(g.iter)
+            if not g.ifs and not g.is_async and isinstance(g.target, ast.Name) and isinstance(it, (ast.Tuple, ast.List)) \
+                    and not any(isinstance(x, ast.Starred) for x in it.elts):
+                for x in it.elts:
+                    for a in _atoms_with_polarity(_subst_name(e.args[0].elt, g.target.id, x), f.pos):
+                        emit(a, d - 1)
+            return
+        hc = _helper_call(v, e)
+        if hc is not None:
+            may = (lambda c: c is NOCONST or bool(c)) if f.pos else (lambda c: c is NOCONST or not c)
+            for t2 in _return_facts(v.helper_of(hc), d - 1, may, f.pos, fresh):
+                put(t2)
+        for g in _atoms_with_polarity(e, f.pos):
+            if g.left is not f.left or g.op != "truthy":
+                emit(g, d - 1)
+
+    for f in list(_fresh_facts(v, site) if fresh else facts_at(v.cfg, site)) + list(extra):
+        emit(f, depth)
+    for f in _completed_loop_facts(v, site):
+        emit(f, depth - 1)
+    if depth > 0 and not fresh:
+        nodes = [site] if not isinstance(site, ast.AST) else v.cfg.nodes_for(site)
+        for c, kvs, complete in v.helper_calls():
+            if not complete or len(kvs) != 1:
+                continue
+            kv = kvs[0]
+            cn = [n for n in v.cfg.nodes_for(c) if n not in nodes]
+            if cn and nodes and all(v.cfg.must_complete(n, cn) for n in nodes):
+                # the helper returned normally on every path to the site: what holds at each of its normal exits holds here
+                for t in _xfacts(kv, kv.cfg.exit, depth=depth - 1, local=True):
+                    put(t)
+    if not local and v.up is not None and not (fresh and _suspends_before(v, v.cfg.nodes_for(site) if isinstance(site, ast.AST) else [site])):
+        for t in _xfacts(v.up, v.site, depth=depth, fresh=fresh, extra=v.extra):
+            put(t)
+    return out
+
+
+def _return_facts(kv: _View, depth: int, may, truth: bool | None, fresh: bool = False) -> list[tuple]:
+    """
+    Facts (expanded) common to every return of the helper whose value is compatible with what the caller observed
+    (may(constant value or NOCONST) -> bool); with truth = True / False the returned expression itself is known truthy / falsy.
+    """
+    cfg = kv.cfg
+    rets = [r for r in walk_no_nested(kv.fi.node) if isinstance(r, ast.Return)]
+    if may(None) and cfg.exit in cfg.reach(cut_nodes=[n for r in rets for n in cfg.nodes_for(r)]):
+        return []           # falling off the end is compatible too: nothing is known
+    cand = [r for r in rets if may(None if r.value is None else _cv(kv, r.value))]
+    if not cand:
+        return []
+    per = [_xfacts(kv, r, depth=max(depth, 0), local=True, fresh=fresh,
+                   extra=_atoms_with_polarity(r.value, truth) if truth is not None and r.value is not None else ()) for r in cand]
+    keys = [{_tkey(t) for t in fs} for fs in per]
+    return [t for t in per[0] if all(_tkey(t) in ks for ks in keys[1:])]
+
+
+def _always(v: _View, nodes: list, event, *, local: bool = False, depth: int = 3) -> bool:
+    """
+    Every path to `nodes` (CFG nodes of view v) - from the entry of the outermost function unless local - has completed one of
+    the statements event(view) normally.  A call of a new helper counts when each of its normal exits has completed one; a
+    helper view inherits what holds at its call site.
+    """
+    through = [n for a in event(v) for n in v.cfg.nodes_for(a)]
+    if depth > 0:
+        for c, kvs, complete in v.helper_calls():
+            if complete and kvs and all(_always(kv, [kv.cfg.exit], event, local=True, depth=depth - 1) for kv in kvs):
+                through += v.cfg.nodes_for(c)
+    if nodes and all(v.cfg.must_complete(n, through) for n in nodes):
+        return True
+    if not local and v.up is not None:
+        return _always(v.up, v.up.cfg.nodes_for(v.site), event, depth=depth)
+    return False
 
 
 _HOP_WRITERS = ("send_initial_create", "send_extend", "_ours_on_created_extended")
@@ -94,6 +631,7 @@ def _old_retry_cache_dropped_before(ctx: Ctx, fi: FuncInfo, site: ast.AST) -> bo
     cfg = ctx.cfg(fi)
 
     def is_key(c: ast.AST, name: str) -> bool:
+        c = resolve(fi, c) if isinstance(c, ast.Name) else c
         return isinstance(c, ast.Call) and chain(c.func) == f"self.request_cache.{name}" and chain(arg(c, 0)) == "RetryRequestCache" \
             and _rnorm(fi, arg(c, 1)) == "circuit.circuit_id"
 
@@ -108,6 +646,8 @@ def _flatten_ifexp(e: ast.AST) -> list[ast.AST]:
     e = strip_cast(e)
     if isinstance(e, ast.IfExp):
         return _flatten_ifexp(e.body) + _flatten_ifexp(e.orelse)
+    if isinstance(e, ast.BoolOp) and isinstance(e.op, ast.Or):
+        return [x for v in e.values for x in _flatten_ifexp(v)]      # `key or self.key` evaluates to one of its operands
     return [e]
 
 
@@ -117,7 +657,10 @@ def _is_responder_static_key(fi: FuncInfo, e: ast.AST, param: str, depth: int = 
     the parameter itself (rebound, if at all, only to self.key), or a local all of whose reaching definitions are such values
     (also through conditional expressions).
     """
-    e = strip_cast(e)
+    alts = _flatten_ifexp(e)
+    if len(alts) > 1:
+        return all(_is_responder_static_key(fi, x, param, depth) for x in alts)
+    e = alts[0]
     if norm(e) == "self.key":
         return True
     if not isinstance(e, ast.Name) or depth <= 0:
@@ -132,45 +675,312 @@ def _is_responder_static_key(fi: FuncInfo, e: ast.AST, param: str, depth: int = 
                for _, v, i in defs)
 
 
+def _subst_name(e: ast.AST, name: str, by: ast.AST) -> ast.AST:
+    """copy of e with every load of `name` replaced by `by`"""
+    if isinstance(e, ast.Name):
+        return clone(by) if e.id == name and isinstance(e.ctx, ast.Load) else clone(e)
+    if not isinstance(e, ast.AST):
+        return e
+    new = type(e)()
+    for f in e._fields:
+        if hasattr(e, f):
+            v = getattr(e, f)
+            setattr(new, f, [_subst_name(x, name, by) for x in v] if isinstance(v, list) else _subst_name(v, name, by))
+    return new
+
+
+def _concat_parts(e: ast.AST) -> list[ast.AST]:
+    """Operands of a bytes concatenation in order: ``a + b`` and ``b"".join((a, b))`` / ``b"".join([a, b])`` are the same value."""
+    e = strip_cast(e)
+    if isinstance(e, ast.BinOp) and isinstance(e.op, ast.Add):
+        return _concat_parts(e.left) + _concat_parts(e.right)
+    if isinstance(e, ast.Call) and isinstance(e.func, ast.Attribute) and e.func.attr == "join" and const_value(e.func.value) == b"" \
+            and len(e.args) == 1 and not e.keywords:
+        seq = e.args[0]
+        if isinstance(seq, (ast.Tuple, ast.List)) and not any(isinstance(x, ast.Starred) for x in seq.elts):
+            return [p for x in seq.elts for p in _concat_parts(x)]
+        if isinstance(seq, (ast.GeneratorExp, ast.ListComp)) and len(seq.generators) == 1:
+            g = seq.generators[0]
+            it = strip_cast(g.iter)
+            if not g.ifs and not g.is_async and isinstance(g.target, ast.Name) and isinstance(it, (ast.Tuple, ast.List)) \
+                    and not any(isinstance(x, ast.Starred) for x in it.elts):
+                return [p for x in it.elts for p in _concat_parts(_subst_name(seq.elt, g.target.id, x))]
+    return [e]
+
+
+def _prefix32(e: ast.AST) -> ast.AST | None:
+    """X if e is X[:32] (also spelled X[0:32]), else None."""
+    e = strip_cast(e)
+    if isinstance(e, ast.Subscript) and isinstance(e.slice, ast.Slice):
+        s = e.slice
+        if (s.lower is None or const_value(s.lower) == 0) and s.upper is not None and const_value(s.upper) == 32 \
+                and (s.step is None or const_value(s.step) == 1):
+            return e.value
+    return None
+
+
+def _is_randbelow(fi: FuncInfo, c: ast.AST) -> bool:
+    if not isinstance(c, ast.Call) or len(c.args) != 1 or c.keywords:
+        return False
+    if chain(c.func) == "secrets.randbelow":
+        return fi.module.imports.get("secrets", ("secrets", None))[0] == "secrets"
+    return isinstance(c.func, ast.Name) and fi.module.imports.get(c.func.id) == ("secrets", "randbelow")
+
+
+# ------------------------------------------------------------------------------------ the answer handlers and what they accept
+def _ours(ctx: Ctx) -> FuncInfo:
+    return ctx.repo.method("TunnelCommunity", "_ours_on_created_extended", TC)
+
+
+_ANSWER_HANDLERS = ("TunnelCommunity.on_created", "TunnelCommunity.on_extended")
+
+
+def _acceptances(ctx: Ctx) -> list[tuple[_View, ast.Call, _View | None, list]]:
+    """
+    (view containing the call, call of _ours_on_created_extended, view of _ours_on_created_extended bound to that call) for
+    every call site in an answer handler or in a new helper only the answer handlers reach (analysed in the handler's context).
+    """
+    cached = getattr(ctx, "_c08_acceptances", None)
+    if cached is None:
+        cached = []
+        refs: set = set()
+        ctx._c08_accept_refs = refs
+        ours = _ours(ctx)
+        for q in _ANSWER_HANDLERS:
+            r = _View(ctx, ctx.repo.method("TunnelCommunity", q.split(".")[1], TC))
+            for v in r.closure():
+                for c in calls(v.fi):
+                    for k, ref, facts in v.call_targets(c):
+                        if k == ours:
+                            w = v.bind_call(ours, c, ref)
+                            if w is not None:
+                                w.extra = list(facts)
+                            cached.append((v, c, w, list(facts)))
+                            refs.add(id(ref))
+        ctx._c08_acceptances = cached
+    return cached
+
+
+def _handler_members(ctx: Ctx) -> set[FuncInfo]:
+    """the answer handlers and the new helpers that only they (transitively) call"""
+    views = [v for q in _ANSWER_HANDLERS for v in _View(ctx, ctx.repo.method("TunnelCommunity", q.split(".")[1], TC)).closure()]
+    members = _closure_functions(views)
+    changed = True
+    while changed:
+        changed = False
+        for f in list(members):
+            if f.qualname not in _ANSWER_HANDLERS and any(g is None or g not in members for _, g, _c in ctx.repo.callers_of_name(f.name)):
+                members.discard(f)
+                changed = True
+    return members
+
+
+def _root(v: _View) -> _View:
+    while v.up is not None:
+        v = v.up
+    return v
+
+
+def _circuit_terms(r: _View) -> tuple[str, str, str]:
+    """(payload parameter of the handler, the circuit the answer is for, its pending hop) in the handler's terms"""
+    p = _root(r).fi.params()[2]
+    return p, f"self.circuits[{p}.circuit_id]", f"self.circuits[{p}.circuit_id].unverified_hop"
+
+
+def _accept_sites(views: list[_View]) -> list[tuple[_View, ast.AST, str]]:
+    out = []
+    for v in views:
+        for st, t in stores(v.fi, lambda c: c.endswith(".keys")):
+            out.append((v, st, "keys"))
+        for st, t in stores(v.fi, lambda c: c.endswith(".unverified_hop")):
+            out.append((v, st, "pending"))
+        out += [(v, c, "add_hop") for c in calls(v.fi) if call_name(c) == "add_hop"]
+    return out
+
+
+def _store_target(st: ast.stmt, suffix: str) -> ast.AST | None:
+    ts = st.targets if isinstance(st, (ast.Assign, ast.Delete)) else [st.target]
+    for t in ts:
+        for e in (t.elts if isinstance(t, (ast.Tuple, ast.List)) else [t]):
+            if isinstance(e, ast.Attribute) and e.attr == suffix:
+                return e
+    return None
+
+
+def _unverified_return_consts(kv: _View, verified_local) -> dict | None:
+    """
+    For a helper some of whose normal exits are not preceded by a successful verification: which constants mark those exits.
+    {None: consts} for the whole return value, {i: consts} for element i of returned tuple displays; None if the helper has no
+    verified exit or an unverified exit returns something else than None / False (the caller cannot tell the outcomes apart).
+    """
+    cfg = kv.cfg
+    rets = [r for r in walk_no_nested(kv.fi.node) if isinstance(r, ast.Return)]
+    bad = [r for r in rets if not verified_local(kv, cfg.nodes_for(r))]
+    if len(bad) == len(rets):
+        return None
+    falls_off = cfg.exit in cfg.reach(cut_nodes=[n for r in rets for n in cfg.nodes_for(r)])
+    whole: set = {None} if falls_off else set()
+    whole_ok = True
+    tuples = []
+    for r in bad:
+        val = strip_cast(r.value) if r.value is not None else None
+        if val is None:
+            whole.add(None)
+        elif isinstance(val, ast.Tuple) and not any(isinstance(x, ast.Starred) for x in val.elts):
+            tuples.append(val)
+            whole_ok = False
+        elif const_value(val) is None or const_value(val) is False:
+            whole.add(const_value(val))
+        else:
+            whole_ok = False
+    out: dict = {}
+    if whole_ok and whole:
+        out[None] = whole
+    if tuples and len(tuples) == len(bad) and not falls_off and len({len(t.elts) for t in tuples}) == 1:
+        for i in range(len(tuples[0].elts)):
+            cs = {const_value(t.elts[i]) for t in tuples}
+            if all(c is None or c is False for c in cs):
+                out[i] = cs
+    return out or None
+
+
+def _verified_at(v: _View, nodes: list, *, local: bool = False, depth: int = 3) -> bool:
+    """
+    Every path to `nodes` has seen verify_and_generate_shared_secret return normally: directly, inside a new helper all of
+    whose normal exits follow the verification, or inside a new decision helper whose unverified exits return None / False
+    (possibly as an element of a tuple) while a dominating fact on the result excludes that constant.
+    """
+    if not nodes:
+        return False
+    cfg = v.cfg
+    through = [n for c in calls(v.fi) if call_name(c) == VERIFY for n in cfg.nodes_for(c)]
+    conditional = []
+    if depth > 0:
+        for c, kvs, complete in v.helper_calls():
+            if not complete or not kvs or not all(any(call_name(x) == VERIFY for w in kv.closure() for x in calls(w.fi)) for kv in kvs):
+                continue
+            kv = kvs[0]
+            if all(_verified_at(k2, [k2.cfg.exit], local=True, depth=depth - 1) for k2 in kvs):
+                through += cfg.nodes_for(c)
+            elif len(kvs) == 1:
+                consts = _unverified_return_consts(kv, lambda w, ns: _verified_at(w, ns, local=True, depth=depth - 1))
+                if consts:
+                    conditional.append((c, consts))
+    if all(cfg.must_complete(n, through) for n in nodes):
+        return True
+    for c, consts in conditional:
+        cn = cfg.nodes_for(c)
+        if all(cfg.must_complete(n, through + cn) for n in nodes) and all(_result_excludes(v, c, consts, n) for n in nodes):
+            return True
+    if not local and v.up is not None:
+        return _verified_at(v.up, v.up.cfg.nodes_for(v.site), depth=depth)
+    return False
+
+
+def _result_excludes(v: _View, c: ast.Call, consts: dict, node) -> bool:
+    """A fact dominating `node` says that the result of call c (or the tuple element bound from it) is not one of the constants."""
+    def which(e: ast.AST):
+        e = strip_cast(e)
+        if e is c:
+            return None, True
+        if isinstance(e, ast.Name) and not is_param(v.fi, e.id):
+            d = local_defs(v.fi, e.id)
+            if len(d) == 1 and d[0][1] is not None and strip_cast(d[0][1]) is c:
+                return d[0][2], True
+        return None, False
+
+    for f in facts_at(v.cfg, node):
+        idx, hit = which(f.left)
+        if not hit or idx not in consts:
+            continue
+        cs = consts[idx]
+        if f.op == "truthy" and f.pos:
+            return True
+        if f.op in ("is", "eq") and f.right is not None:
+            rv = const_value(f.right)
+            if f.pos and rv is True:
+                return True
+            if not f.pos and (rv is None or rv is False) and cs <= {rv}:
+                return True
+    return False
+
+
+def _key_values(v: _View, e: ast.AST, depth: int = 3) -> list[ast.AST]:
+    """Expanded values `e` can have; the result of a new helper stands for its non-constant return values (the caller excluded the constants)."""
+    r = resolve(v.fi, e)
+    idx = None
+    if isinstance(r, ast.Name) and not is_param(v.fi, r.id):
+        d = local_defs(v.fi, r.id)
+        if len(d) == 1 and d[0][1] is not None and d[0][2] is not None:
+            r, idx = strip_cast(d[0][1]), d[0][2]
+    kv = v.helper_of(r) if isinstance(r, ast.Call) else None
+    if kv is None or depth <= 0:
+        return [v.expand(e)]
+    out = []
+    for ret in [x for x in walk_no_nested(kv.fi.node) if isinstance(x, ast.Return)]:
+        val = strip_cast(ret.value) if ret.value is not None else None
+        if idx is not None:
+            if not isinstance(val, ast.Tuple) or idx >= len(val.elts):
+                out.append(v.expand(e))
+                continue
+            val = val.elts[idx]
+        if val is None or const_value(val) is None or const_value(val) is False:
+            continue
+        out += _key_values(kv, val, depth - 1)
+    return out or [v.expand(e)]
+
+
 def rule_identifier(ctx: Ctx) -> None:
     repo = ctx.repo
     n = 0
+    # the acceptance function is only ever *called*, by name, from the two answer handlers
+    accs = _acceptances(ctx)
+    for m, fi, a in repo.attribute_uses("_ours_on_created_extended"):
+        par = parent(a)
+        if id(a) in ctx._c08_accept_refs and not (isinstance(par, ast.Call) and par.func is a):
+            n += 1          # one alternative of a dispatched call in an answer handler: analysed below under its selecting facts
+        elif not (isinstance(par, ast.Call) and par.func is a):
+            raise AnalysisError(f"undecided: _ours_on_created_extended is referenced without being called in {fi.qualname if fi else m.relpath} "
+                                "(stored in a table / passed on): its callers cannot be enumerated")
+    members = _handler_members(ctx)
     for m, fi, c in repo.callers_of_name("_ours_on_created_extended"):
         if fi is None:
             continue
         n += 1
-        ok_who = fi.qualname in ("TunnelCommunity.on_created", "TunnelCommunity.on_extended")
+        ok_who = fi in members
         ctx.check(ok_who, "identifier-match", fi, c, f"_ours_on_created_extended called from {fi.qualname}",
                   "keys can be accepted through a caller other than on_created/on_extended")
-        if not ok_who:
-            continue
-        cfg = ctx.cfg(fi)
-        payload = fi.params()[2]
-        facts = facts_at(cfg, c)
-        cache_ok = ident_ok = False
-        for f in facts:
-            if f.op == "truthy" and f.pos and isinstance(f.left, ast.Name):
-                d = single_def(fi, f.left.id)
-                if d is not None:
-                    v = strip_cast(d[0])
-                    if isinstance(v, ast.Call) and chain(v.func) == "self.request_cache.get" and chain(arg(v, 0)) == "RetryRequestCache" \
-                            and norm(resolve(fi, arg(v, 1))) == f"{payload}.circuit_id":
-                        cache_ok = f.left.id
-        for f in facts:
-            if f.op == "eq" and f.pos and cache_ok:
-                if {norm(f.left), norm(f.right)} == {f"{cache_ok}.packet_identifier", f"{payload}.identifier"}:
-                    ident_ok = True
-        args_ok = norm(resolve(fi, arg(c, 0))) == f"{payload}.circuit_id" and chain(arg(c, 1)) == payload
-        ctx.check(bool(cache_ok) and ident_ok and args_ok, "identifier-match", fi, c,
+    for r, c, w, sel in accs:
+        fi = r.fi
+        payload, circ, _ = _circuit_terms(r)
+        xf = _xfacts(r, c, extra=sel)
+        gets = set()
+        for op, pos, l, rt in xf:
+            live = op == "truthy" and pos or op == "is" and not pos and rt is not None and const_value(rt) is None
+            if live and isinstance(l, ast.Call) and chain(l.func) == "self.request_cache.get" and chain(arg(l, 0)) == "RetryRequestCache" \
+                    and _snorm(arg(l, 1)) == f"{payload}.circuit_id" and len(l.args) + len(l.keywords) == 2:
+                gets.add(norm(l))
+        keys = {_tkey(t) for t in xf}
+        ident_ok = any(_fkey("eq", True, f"{g}.packet_identifier", f"{payload}.identifier") in keys for g in gets)
+        # the circuit whose pending hop is keyed / appended is the circuit of that retry cache
+        args_ok = False
+        if w is not None:
+            views = w.closure()
+            touched = [v.xn(x.func.value) for v, x, kind in _accept_sites(views) if kind == "add_hop" and isinstance(x.func, ast.Attribute)]
+            touched += [v.xn(getattr(_store_target(x, "unverified_hop"), "value", None)) for v, x, kind in _accept_sites(views) if kind == "pending"]
+            args_ok = bool(touched) and all(t == circ for t in touched) and not local_defs(_root(r).fi, payload)
+        ctx.check(bool(gets) and ident_ok and args_ok, "identifier-match", fi, c,
                   "answer accepted only if a RetryRequestCache for payload.circuit_id exists and its packet_identifier == payload.identifier",
                   "a created/extended answer with a wrong identifier, for another circuit, or after the attempt was abandoned is processed",
-                  [str(f) for f in facts])
+                  [f"{op}{'' if pos else '-not'}: {norm(l)}{' / ' + norm(rt) if rt is not None else ''}" for op, pos, l, rt in xf])
     ctx.floor("identifier-match", n, 2)
     # packet_identifier: random, assigned once
     init = repo.method("RetryRequestCache", "__init__", CA)
     sts = [s for s, t in stores(init, "self.packet_identifier")]
-    ok = len(sts) == 1 and isinstance(sts[0].value, ast.Call) and chain(sts[0].value.func) == "secrets.randbelow" \
-        and repo.resolve_const(init.module, sts[0].value.args[0]) == 65536
+    ok = len(sts) == 1 and isinstance(sts[0], (ast.Assign, ast.AnnAssign)) and sts[0].value is not None
+    if ok:
+        v = resolve(init, sts[0].value)
+        ok = _is_randbelow(init, v) and repo.resolve_const(init.module, v.args[0]) == 65536
     ctx.check(ok, "identifier-match", init, init.node, "packet_identifier = secrets.randbelow(2**16) per attempt",
               "the per-attempt identifier is not a fresh 16-bit random value")
     for m, fi, a in repo.attribute_uses("packet_identifier"):
@@ -180,102 +990,116 @@ def rule_identifier(ctx: Ctx) -> None:
     # each attempt constructs a new cache and sends *its* identifier
     for meth, pl in (("send_initial_create", "CreatePayload"), ("send_extend", "ExtendPayload")):
         fi = repo.method("TunnelCommunity", meth, TC)
-        ctors = calls(fi, "RetryRequestCache")
-        pls = calls(fi, pl)
+        views = _View(ctx, fi).closure()
+        ctors = [(v, c) for v in views for c in calls(v.fi, "RetryRequestCache")]
+        pls = [(v, c) for v in views for c in calls(v.fi, pl)]
         ok = len(ctors) == 1 and len(pls) == 1
         if ok:
-            # the local(s) the new cache is bound to (plain / chained / annotated assignment), each assigned once
-            names = [v for v in _assigned_names(enclosing_stmt(ctors[0])) if len(local_defs(fi, v)) == 1]
-            ident = strip_cast(arg(pls[0], 1))
-            ok = isinstance(ident, ast.Attribute) and ident.attr == "packet_identifier" and \
-                isinstance(strip_cast(ident.value), ast.Name) and strip_cast(ident.value).id in names \
-                and _rnorm(fi, arg(pls[0], 0)) == "circuit.circuit_id" \
-                and any(chain(a.func) == "self.request_cache.add" and chain(strip_cast(arg(a, 0))) in names for a in calls(fi))
+            # the identifier sent is the one of the cache constructed (once) and registered here, whatever locals carry it
+            (cv_, ctor), (pv, pcall) = ctors[0], pls[0]
+            ct = cv_.xn(ctor)
+            pa = _pargs(pcall, ["circuit_id", "identifier", "node_public_key", "key", "node_addr"][:5 if pl == "ExtendPayload" else 4])
+            ident = pv.expand(pa[1]) if pa and pa[1] is not None else None
+            ok = isinstance(ident, ast.Attribute) and ident.attr == "packet_identifier" and norm(ident.value) == ct \
+                and pv.xn(pa[0]) == "circuit.circuit_id" and is_param(fi, "circuit") and not local_defs(fi, "circuit") \
+                and any(chain(a.func) == "self.request_cache.add" and v.xn(arg(a, 0)) == ct for v in views for a in calls(v.fi))
             # old attempt's cache is popped first (so an answer to the old attempt finds the new identifier): on every path
             # to the construction of the new cache the old one was popped or there was none (CFG, not line order)
-            ok = ok and _old_retry_cache_dropped_before(ctx, fi, ctors[0])
+            site, sv_ = ctor, cv_
+            while sv_.up is not None:
+                site, sv_ = sv_.site, sv_.up
+            ok = ok and _old_retry_cache_dropped_before(ctx, fi, site)
         ctx.check(ok, "identifier-match", fi, fi.node, f"{meth}: pops the old retry cache, registers a new one and sends its identifier",
                   f"{meth} does not bind the request to a fresh retry cache identifier")
 
 
 def rule_verify_before_accept(ctx: Ctx) -> None:
     repo = ctx.repo
-    fi = repo.method("TunnelCommunity", "_ours_on_created_extended", TC)
-    cfg = ctx.cfg(fi)
-    params = fi.params()
-    cid, payload = params[1], params[2]
-    vcalls = ctx.anchor([c for c in calls(fi) if call_name(c) == "verify_and_generate_shared_secret"], "verify call")
-    vnodes = [n for c in vcalls for n in cfg.nodes_for(c)]
-    # accepted state changes
-    accept_sites = []
-    for st, t in stores(fi, lambda c: c.endswith(".keys") or c.endswith(".unverified_hop")):
-        accept_sites.append(st)
-    accept_sites += [c for c in calls(fi) if call_name(c) == "add_hop"]
-    ctx.floor("verify-before-accept", len(accept_sites), 3)
-    for s in accept_sites:
-        for sn in cfg.nodes_for(s):
-            ctx.check(cfg.must_complete(sn, vnodes), "verify-before-accept", fi, s,
+    fi = _ours(ctx)
+    acc = [(r, c, w) for r, c, w, _sel in _acceptances(ctx) if w is not None]
+    if not acc:
+        raise AnalysisError("undecided: no call of _ours_on_created_extended from on_created / on_extended whose arguments can be bound")
+    n_sites = 0
+    for r, c0, w in acc:
+        payload, circ, hop = _circuit_terms(r)
+        views = w.closure()
+        vcalls = [(v, c) for v in views for c in calls(v.fi) if call_name(c) == VERIFY]
+        ctx.anchor(vcalls, "verify call")
+        vnorms = {v.xn(c) for v, c in vcalls}
+        sites = _accept_sites(views)
+        n_sites = max(n_sites, len(sites))
+        # accepted state changes
+        for v, s, kind in sites:
+            ctx.check(_verified_at(v, v.cfg.nodes_for(s)), "verify-before-accept", v.fi, s,
                       f"`{norm(s)[:60]}` reachable only after verify_and_generate_shared_secret returned normally",
                       "session keys / the new hop are accepted on a path on which the authenticated DH verification did not succeed")
-    # keys derive from the verified secret
-    for st, t in stores(fi, lambda c: c.endswith(".keys")):
-        v = resolve(fi, st.value)
-        ok = isinstance(v, ast.Call) and call_name(v) == "generate_session_keys" and \
-            isinstance(resolve(fi, arg(v, 0)), ast.Call) and resolve(fi, arg(v, 0)) in vcalls
-        ctx.check(ok, "verify-before-accept", fi, st, "hop.keys = generate_session_keys(<verified shared secret>)",
-                  "the accepted session keys are not derived from the verified shared secret")
-    # the pending hop is cleared before the hop is appended: nothing that can raise lies between acceptance and the reset,
-    # otherwise a duplicate of the same answer verifies again and appends the same peer twice
-    resets = [n for s_, t in stores(fi, lambda c: c.endswith(".unverified_hop")) if const_value(s_.value) is None for n in cfg.nodes_for(s_)]
-    for c in [c for c in calls(fi) if call_name(c) == "add_hop"]:
-        ok = bool(resets) and all(cfg.must_complete(n, resets) for n in cfg.nodes_for(c))
-        ctx.check(ok, "verify-before-accept", fi, c, "circuit.unverified_hop is cleared before add_hop on every path",
-                  "the accepted hop stays registered as the pending hop on some path after add_hop: a duplicated answer is verified again and the same peer is appended twice")
+        # keys derive from the verified secret and are installed on the pending hop of this circuit
+        for v, st, kind in sites:
+            if kind != "keys":
+                continue
+            vals = _key_values(v, st.value) if isinstance(st, (ast.Assign, ast.AnnAssign)) and st.value is not None else []
+            ok = bool(vals) and all(isinstance(x, ast.Call) and call_name(x) == "generate_session_keys" and len(x.args) == 1 and not x.keywords
+                                    and norm(x.args[0]) in vnorms for x in vals)
+            ctx.check(ok, "verify-before-accept", v.fi, st, "hop.keys = generate_session_keys(<verified shared secret>)",
+                      "the accepted session keys are not derived from the verified shared secret")
+            tgt = _store_target(st, "keys")
+            ctx.check(tgt is not None and v.xn(tgt.value) == hop, "verify-before-accept", v.fi, st,
+                      "the session keys are installed on the circuit's pending hop",
+                      "the accepted session keys are installed on something other than the pending hop of the answered circuit")
+        # the pending hop is cleared before the hop is appended: nothing that can raise lies between acceptance and the reset,
+        # otherwise a duplicate of the same answer verifies again and appends the same peer twice
+
+        def resets(x: _View) -> list[ast.AST]:
+            return [s_ for s_, t in stores(x.fi, lambda c: c.endswith(".unverified_hop"))
+                    if isinstance(s_, (ast.Assign, ast.AnnAssign)) and s_.value is not None and const_value(s_.value) is None
+                    and x.xn(t.value) == circ]
+
+        for v, c, kind in sites:
+            if kind != "add_hop":
+                continue
+            ctx.check(_always(v, v.cfg.nodes_for(c), resets), "verify-before-accept", v.fi, c, "circuit.unverified_hop is cleared before add_hop on every path",
+                      "the accepted hop stays registered as the pending hop on some path after add_hop: a duplicated answer is verified again and the same peer is appended twice")
+            # the hop that is added is the unverified hop of this circuit
+            ok = isinstance(c.func, ast.Attribute) and v.xn(c.func.value) == circ and len(c.args) == 1 and not c.keywords and v.xn(c.args[0]) == hop
+            ctx.check(ok, "verify-before-accept", v.fi, c,
+                      "circuit.add_hop(hop) with hop = circuit.unverified_hop of self.circuits[circuit_id]",
+                      "the hop appended is not the circuit's own unverified hop")
+        # ---- selected-peer-key
+        for v, c in vcalls:
+            pa = _pargs(c, ["dh_secret", "dh_received", "auth", "b"])
+            a = [v.xn(x) for x in pa] if pa else []
+            ok = a == [f"{hop}.dh_secret", f"{payload}.key", f"{payload}.auth", f"{hop}.peer.public_key.get_crypt_pk()"]
+            ctx.check(ok, "selected-peer-key", v.fi, c, "verify(hop.dh_secret, payload.key, payload.auth, hop.peer.public_key.get_crypt_pk())",
+                      "the DH verification is not bound to the static key of the peer the originator selected for this hop")
+    ctx.floor("verify-before-accept", n_sites, 3)
     # the session keys are derived from the WHOLE shared secret (ephemeral and static half)
     gk = repo.method("TunnelCrypto", "generate_session_keys", CR)
     ks = [c for c in calls(gk, "_generate_session_keys")]
-    ok = len(ks) == 1 and norm(arg(ks[0], 0)) == gk.params()[0] and not local_defs(gk, gk.params()[0])
+    ok = len(ks) == 1 and len(ks[0].args) == 1 and not ks[0].keywords and _rnorm(gk, ks[0].args[0]) == gk.params()[0] and not local_defs(gk, gk.params()[0])
     imp = gk.module.imports.get("_generate_session_keys")
     ok = ok and imp is not None and imp[0] == "ipv8_rust_tunnels"
     ctx.check(ok, "selected-peer-key", gk, gk.node, "session keys = KDF(whole shared secret)",
               "the KDF is not fed the complete shared secret: the half that binds the keys to the selected peer's static key is dropped, so whoever answers with an own ephemeral key shares the accepted keys")
-    # the hop that is added is the unverified hop of this circuit
-    circ = single_def(fi, "circuit")
-    ok_circ = circ is not None and norm(circ[0]) == f"self.circuits[{cid}]"
-    hop = single_def(fi, "hop")
-    ok_hop = hop is not None and norm(hop[0]) == "circuit.unverified_hop"
-    for c in [c for c in calls(fi) if call_name(c) == "add_hop"]:
-        ctx.check(ok_circ and ok_hop and chain(c.func) == "circuit.add_hop" and chain(arg(c, 0)) == "hop", "verify-before-accept", fi, c,
-                  "circuit.add_hop(hop) with hop = circuit.unverified_hop of self.circuits[circuit_id]",
-                  "the hop appended is not the circuit's own unverified hop")
-    # ---- selected-peer-key
-    for c in vcalls:
-        a = [_snorm(x) for x in c.args]  # typing.cast(..) around an argument is the identity
-        ok = len(a) == 4 and not c.keywords and a[0] == "hop.dh_secret" and a[1] == f"{payload}.key" and a[2] == f"{payload}.auth" \
-            and a[3] == "hop.peer.public_key.get_crypt_pk()" and ok_hop and ok_circ
-        ctx.check(ok, "selected-peer-key", fi, c, "verify(hop.dh_secret, payload.key, payload.auth, hop.peer.public_key.get_crypt_pk())",
-                  "the DH verification is not bound to the static key of the peer the originator selected for this hop")
     # ---- inside the verification
-    vf = repo.method("TunnelCrypto", "verify_and_generate_shared_secret", CR)
-    cfgv = ctx.cfg(vf)
+    vf = repo.method("TunnelCrypto", VERIFY, CR)
+    vv = _View(ctx, vf)
     p = vf.params()
     rets = [r for r in walk_no_nested(vf.node) if isinstance(r, ast.Return)]
     ctx.anchor(rets, "return in verify_and_generate_shared_secret")
     for r in rets:
-        facts = facts_at(cfgv, r)
-        av = None
-        for f in facts:
-            if f.op == "truthy" and f.pos and isinstance(f.left, ast.Call) and chain(f.left.func) == "crypto_auth_verify":
-                av = f.left
-        mac_key = resolve(vf, av.args[1]) if av is not None and len(av.args) == 3 else None  # `auth_key = secret[:32]` alias accepted
-        ok = mac_key is not None and _snorm(av.args[0]) == p[2] and _snorm(av.args[2]) == p[1] and \
-            isinstance(mac_key, ast.Subscript) and isinstance(strip_cast(r.value), ast.Name) and \
-            chain(mac_key.value) == chain(strip_cast(r.value)) and len(local_defs(vf, chain(mac_key.value))) == 1 and norm(mac_key.slice) == ":32"
+        xf = _xfacts(vv, r)
+        secret = vv.expand(r.value) if r.value is not None else None
+        ok = False
+        for op, pos, l, rt in xf:
+            if op == "truthy" and pos and isinstance(l, ast.Call) and chain(l.func) == "crypto_auth_verify" and len(l.args) == 3 and not l.keywords:
+                mac = _prefix32(l.args[1])
+                if secret is not None and mac is not None and norm(mac) == norm(secret) and _snorm(l.args[0]) == p[2] and _snorm(l.args[2]) == p[1]:
+                    ok = True
         ctx.check(ok, "verify-before-accept", vf, r, "shared secret returned only under truthy crypto_auth_verify(auth, secret[:32], dh_received)",
-                  "verify_and_generate_shared_secret can return a secret without a successful authenticator check", [str(f) for f in facts])
-        ss = resolve(vf, r.value)
-        ok2 = isinstance(ss, ast.BinOp) and isinstance(ss.op, ast.Add) and \
-            norm(resolve(vf, ss.left)) == f"{p[0]}.diffie_hellman({p[1]})" and norm(resolve(vf, ss.right)) == f"{p[0]}.diffie_hellman({p[3]})"
+                  "verify_and_generate_shared_secret can return a secret without a successful authenticator check",
+                  [f"{op}{'' if pos else '-not'}: {norm(l)}" for op, pos, l, rt in xf])
+        parts = [norm(x) for x in _concat_parts(secret)] if secret is not None else []
+        ok2 = parts == [f"{p[0]}.diffie_hellman({p[1]})", f"{p[0]}.diffie_hellman({p[3]})"]
         ctx.check(ok2, "selected-peer-key", vf, r, "secret = DH(secret, received ephemeral) + DH(secret, static key b)",
                   "the shared secret does not combine the ephemeral and the selected peer's static key in (ephemeral, static) order")
     for name in p:
@@ -285,30 +1109,45 @@ def rule_verify_before_accept(ctx: Ctx) -> None:
               "crypto_auth_verify is the ipv8_rust_tunnels primitive", "crypto_auth_verify is shadowed by a local definition")
     # responder side mirrors the order
     gf = repo.method("TunnelCrypto", "generate_diffie_shared_secret", CR)
-    rets = [r for r in walk_no_nested(gf.node) if isinstance(r, ast.Return) and isinstance(r.value, ast.Tuple)]
+    gv = _View(ctx, gf)
+    keep = frozenset({"tmp_key"})       # the ephemeral key object keeps its name: identity matters, not its constructor text
+    rets = [(r, gv.expand(r.value, keep=keep)) for r in walk_no_nested(gf.node) if isinstance(r, ast.Return) and r.value is not None]
+    rets = [(r, t) for r, t in rets if isinstance(t, ast.Tuple)]
     ctx.anchor(rets, "return in generate_diffie_shared_secret")
-    for r in rets:
-        ss = resolve(gf, r.value.elts[0])
+    for r, t in rets:
         recv, keyp = gf.params()[1], gf.params()[2]
-        ok = len(r.value.elts) == 3 and isinstance(ss, ast.BinOp) and isinstance(ss.op, ast.Add) and not local_defs(gf, recv)
+        parts = _concat_parts(t.elts[0]) if len(t.elts) == 3 else []
+        ok = len(parts) == 2 and not local_defs(gf, recv)
         if ok:
-            eph, sta = resolve(gf, ss.left), resolve(gf, ss.right)
+            eph, sta = parts
             ok = norm(eph) == f"tmp_key.diffie_hellman({recv})" and isinstance(sta, ast.Call) and call_name(sta) == "diffie_hellman" \
                 and len(sta.args) == 1 and not sta.keywords and norm(sta.args[0]) == recv \
                 and _is_responder_static_key(gf, sta.func.value, keyp)
         tk = single_def(gf, "tmp_key")
         ok = ok and tk is not None  # one ephemeral key object: the one in the DH is the one whose public half is authenticated
-        au = resolve(gf, r.value.elts[2]) if ok else None
-        ok_au = isinstance(au, ast.Call) and chain(au.func) == "crypto_auth" and len(au.args) == 2 \
-            and isinstance(strip_cast(r.value.elts[0]), ast.Name) and len(local_defs(gf, chain(strip_cast(r.value.elts[0])))) == 1 \
-            and _rnorm(gf, au.args[0]) == f"{chain(strip_cast(r.value.elts[0]))}[:32]" \
-            and _rnorm(gf, au.args[1]) == "tmp_key.get_crypt_pk()" and _rnorm(gf, r.value.elts[1]) == "tmp_key.get_crypt_pk()"
+        au = t.elts[2] if ok else None
+        ok_au = isinstance(au, ast.Call) and chain(au.func) == "crypto_auth" and len(au.args) == 2 and not au.keywords \
+            and _prefix32(au.args[0]) is not None and norm(_prefix32(au.args[0])) == norm(t.elts[0]) \
+            and norm(au.args[1]) == "tmp_key.get_crypt_pk()" and norm(t.elts[1]) == "tmp_key.get_crypt_pk()"
         ctx.check(ok and ok_au, "selected-peer-key", gf, r, "responder: secret = DH(ephemeral, X) + DH(static, X); auth over secret[:32] and its ephemeral key",
                   "responder side of the handshake does not mirror the originator's (ephemeral, static) construction")
 
 
 def rule_unverified_hop_writers(ctx: Ctx) -> None:
     repo = ctx.repo
+    ours = _ours(ctx)
+    sic = repo.method("TunnelCommunity", "send_initial_create", TC)
+    se = repo.method("TunnelCommunity", "send_extend", TC)
+    cinit = repo.method("Circuit", "__init__", TU)
+    # the closed set of writers: the four reviewed functions plus new helpers only they reach (analysed with bound parameters)
+    owner: dict[FuncInfo, tuple[FuncInfo, _View]] = {}
+    for root in (cinit, ours, sic, se):
+        views = _View(ctx, root).closure()
+        members = _closure_functions(views)
+        for v in views:
+            if v.fi is not root and any(f is None or f not in members for _, f, _c in repo.callers_of_name(v.fi.name)):
+                continue        # also reachable from elsewhere: not a private part of this writer
+            owner.setdefault(v.fi, (root, v))
     n = 0
     for m in repo.modules.values():
         for node in ast.walk(m.tree):
@@ -316,45 +1155,324 @@ def rule_unverified_hop_writers(ctx: Ctx) -> None:
                 fi = repo.function_of(node)
                 st = enclosing_stmt(node)
                 n += 1
-                q = fi.qualname if fi else "?"
-                if q == "Circuit.__init__" or q == "TunnelCommunity._ours_on_created_extended":
-                    ok = isinstance(st, (ast.Assign, ast.AnnAssign)) and isinstance(st.value, ast.Constant) and st.value.value is None
-                elif q == "TunnelCommunity.send_initial_create":
-                    v = resolve(fi, st.value)
-                    ok = isinstance(v, ast.Call) and chain(v.func) == "Hop" and norm(resolve(fi, arg(v, 0, "peer"))) == "candidate_peers[0]" \
-                        and not local_defs(fi, "candidate_peers")
-                elif q == "TunnelCommunity.send_extend":
-                    v = resolve(fi, st.value)
-                    ok = isinstance(v, ast.Call) and chain(v.func) == "Hop"
-                    if ok:
-                        pe = strip_cast(arg(v, 0))
-                        k = resolve(fi, arg(pe, 0)) if isinstance(pe, ast.Call) and chain(pe.func) == "Peer" else None
-                        ok = isinstance(k, ast.Call) and call_name(k) == "key_from_public_bin" and chain(arg(k, 0)) == "extend_hop_public_bin"
-                else:
+                root, v = owner.get(fi, (None, None)) if fi is not None else (None, None)
+                q = root.qualname if root else (fi.qualname if fi else "?")
+                val = st.value if isinstance(st, (ast.Assign, ast.AnnAssign)) else None
+                if val is not None and isinstance(st, ast.Assign) and isinstance(st.value, ast.Tuple):
+                    # element-wise tuple assignment: the element stored into this target
+                    for t in st.targets:
+                        if isinstance(t, (ast.Tuple, ast.List)) and len(t.elts) == len(st.value.elts) and node in t.elts:
+                            val = st.value.elts[t.elts.index(node)]
+                ok = False
+                if root is None or val is None:
                     ok = False
+                elif root is cinit or root is ours:
+                    ok = const_value(strip_cast(val)) is None
+                elif root is sic:
+                    h = v.expand(val)
+                    cand = root.params()[2]
+                    ok = isinstance(h, ast.Call) and chain(h.func) == "Hop" and _snorm(arg(h, 0, "peer")) == f"{cand}[0]" \
+                        and not local_defs(root, cand)
+                elif root is se:
+                    h = v.expand(val, keep=frozenset({"extend_hop_public_bin"}))
+                    ok = isinstance(h, ast.Call) and chain(h.func) == "Hop"
+                    if ok:
+                        pe = strip_cast(arg(h, 0, "peer"))
+                        k = strip_cast(arg(pe, 0, "key")) if isinstance(pe, ast.Call) and chain(pe.func) == "Peer" else None
+                        ok = isinstance(k, ast.Call) and call_name(k) == "key_from_public_bin" and chain(arg(k, 0)) == "extend_hop_public_bin"
                 ctx.check(ok, "selected-peer-key", fi or m.relpath, st, f"unverified_hop written in {q} from the chosen candidate",
                           "the hop awaiting verification is set from something other than the candidate the originator selected")
     ctx.floor("selected-peer-key.writers", n, 4)
     # the extend request names the same key that will be verified
-    se = repo.method("TunnelCommunity", "send_extend", TC)
     for c in calls(se, "ExtendPayload"):
-        a2, a3 = strip_cast(arg(c, 2)), strip_cast(arg(c, 3))
+        pa = _pargs(c, ["circuit_id", "identifier", "node_public_key", "key", "node_addr"]) or [None] * 5
+        a2, a3 = (strip_cast(x) if x is not None else None for x in pa[2:4])
         ok = isinstance(a2, ast.Attribute) and a2.attr == "public_key_bin" and _is_pending_hop(ctx, se, a2.value, c) \
             and isinstance(a3, ast.Attribute) and a3.attr == "dh_first_part" and _is_pending_hop(ctx, se, a3.value, c)
         ctx.check(ok, "selected-peer-key", se, c, "extend request carries unverified_hop's key and DH part",
                   "the extend request names a different node than the one whose key will be verified")
-    sic = repo.method("TunnelCommunity", "send_initial_create", TC)
+    sv = _View(ctx, sic)
     for c in calls(sic, "CreatePayload"):
-        a3 = strip_cast(arg(c, 3))
+        pa = _pargs(c, ["circuit_id", "identifier", "node_public_key", "key"]) or [None] * 4
+        a3 = strip_cast(pa[3]) if pa[3] is not None else None
         ok = isinstance(a3, ast.Attribute) and a3.attr == "dh_first_part" and _is_pending_hop(ctx, sic, a3.value, c)
         ctx.check(ok, "selected-peer-key", sic, c, "create request carries unverified_hop's DH part", "create carries another DH part")
-        snd = [s for s in calls(sic, "self.send_cell")]
-        ctx.check(bool(snd) and norm(arg(snd[0], 0)) == "first_hop.address", "selected-peer-key", sic, c,
+        # the create goes to the address of the selected first hop: the candidate itself, or the peer of the pending hop
+        snd = [s for s in calls(sic, "self.send_cell") if any(x is c for x in ast.walk(s))] or calls(sic, "self.send_cell")
+        ok = False
+        if snd:
+            dest = sv.expand(arg(snd[0], 0))
+            raw = resolve(sic, arg(snd[0], 0))
+            ok = norm(dest) == f"{sic.params()[2]}[0].address" and not local_defs(sic, sic.params()[2])
+            if not ok and isinstance(raw, ast.Attribute) and raw.attr == "address":
+                b = strip_cast(raw.value)
+                if isinstance(b, ast.Attribute) and b.attr == "peer":
+                    b = b.value                      # Hop.address is Hop.peer.address
+                ok = _is_pending_hop(ctx, sic, b, snd[0])
+        ctx.check(ok, "selected-peer-key", sic, c,
                   "create is sent to the selected first hop", "create is sent to a peer other than the selected first hop")
+    _extend_names_one_node(ctx, se)
     # dh_secret generated per attempt
     for fi in (sic, se):
-        g = [c for c in calls(fi) if call_name(c) == "generate_diffie_secret"]
+        g = [c for v in _View(ctx, fi).closure() for c in calls(v.fi) if call_name(c) == "generate_diffie_secret"]
         ctx.check(len(g) == 1, "selected-peer-key", fi, fi.node, f"{fi.name}: fresh DH secret per attempt", "DH secret is not generated per attempt")
+
+
+def _closed_members(ctx: Ctx, root: FuncInfo) -> set[FuncInfo]:
+    """root and the new helpers that only root (transitively) calls"""
+    members = _closure_functions(_View(ctx, root).closure())
+    changed = True
+    while changed:
+        changed = False
+        for f in list(members):
+            if f is not root and any(g is None or g not in members for _, g, _c in ctx.repo.callers_of_name(f.name)):
+                members.discard(f)
+                changed = True
+    return members
+
+
+_DICT_ADD = ("update", "setdefault", "__setitem__", "__ior__")
+_DICT_DEL = ("pop", "popitem", "clear", "__delitem__")
+
+
+def rule_responder_keying(ctx: Ctx) -> None:
+    """
+    The answering side of a hop: the exit socket of a circuit id carries the session keys negotiated with whoever sent the
+    CREATE.  It is installed only by join_circuit, only for a circuit id that is in no table (checked after the last suspension
+    point, so that no second CREATE for the id slipped in between), and removed only by remove_exit_socket - a CREATE, which is
+    unauthenticated plaintext, can never re-key or take over an established hop.
+    """
+    repo = ctx.repo
+    jc = repo.method("TunnelCommunity", "join_circuit", TC)
+    rex = repo.method("TunnelCommunity", "remove_exit_socket", TC)
+    may_install, may_remove = _closed_members(ctx, jc), _closed_members(ctx, rex)
+    n = 0
+    for m, fi, a in repo.attribute_uses("exit_sockets"):
+        par = parent(a)
+        st = enclosing_stmt(a)
+        kind = None
+        if isinstance(a.ctx, ast.Store):
+            kind = "bind"
+        elif isinstance(par, ast.Subscript) and par.value is a and isinstance(par.ctx, ast.Store):
+            kind = "install"
+        elif isinstance(par, ast.Subscript) and par.value is a and isinstance(par.ctx, ast.Del):
+            kind = "remove"
+        elif isinstance(par, ast.Attribute) and isinstance(parent(par), ast.Call) and parent(par).func is par:
+            kind = "install" if par.attr in _DICT_ADD else "remove" if par.attr in _DICT_DEL else None
+        elif isinstance(par, ast.AugAssign) and par.target is a:
+            kind = "install"
+        if kind is None:
+            continue
+        n += 1
+        if kind == "bind":
+            ctx.check(fi is not None and fi.name == "__init__", "responder-keying", fi or m.relpath, st, "exit_sockets bound at construction only",
+                      "the table of exit sockets (answering ends of hops and their keys) is replaced after construction")
+        elif kind == "install":
+            ctx.check(fi is not None and fi in may_install, "responder-keying", fi or m.relpath, st, "exit socket installed by join_circuit only",
+                      "an exit socket (the answering end of a hop with its session keys) is installed outside join_circuit: "
+                      "a hop can be keyed without the create handshake and its in-use check")
+        else:
+            ctx.check(fi is not None and fi in may_remove, "responder-keying", fi or m.relpath, st, "exit socket removed by remove_exit_socket only",
+                      f"{fi.qualname if fi else m.relpath} removes an exit socket itself: once the established answering end of a hop is gone the "
+                      "in-use check of join_circuit passes again, so an (unauthenticated) CREATE for that circuit id re-keys the hop with whoever sent it")
+    ctx.floor("responder-keying", n, 4)
+    need = {"self.exit_sockets", "self.relay_from_to", "self.circuits"}
+
+    def unused_id_known(views: list[_View]) -> tuple[bool, int]:
+        ok, cnt = True, 0
+        for v in views:
+            for st, k, val in _route_installs(v, "self.exit_sockets"):
+                cnt += 1
+                have = {norm(rt) for op, pos, l, rt in _xfacts(v, st, fresh=True) if op == "in" and not pos and rt is not None and norm(l) == norm(k)}
+                ok = ok and need <= have
+        return ok, cnt
+
+    root = _View(ctx, jc)
+    ok, cnt = unused_id_known(root.closure())
+    ctx.anchor(cnt, "exit socket installation in join_circuit")
+    if not ok:
+        # the check may live in the callers instead - then in every caller, after its last suspension point
+        callers = [(g, c) for _, g, c in repo.callers_of_name("join_circuit") if g is not None and g not in may_install]
+        ok = bool(callers)
+        for g, c in callers:
+            w = _View(ctx, g).bind_call(jc, c)
+            ok = ok and w is not None and unused_id_known(w.closure())[0]
+    sites = [st for v in root.closure() for st, k, val in _route_installs(v, "self.exit_sockets")]
+    ctx.check(ok, "responder-keying", jc, sites[0],
+              "exit socket installed only for a circuit id that is not in circuits / relay_from_to / exit_sockets, tested after the last await",
+              "join_circuit installs self.exit_sockets[circuit_id] (new session keys for the hop towards the sender of the CREATE) without a "
+              "dominating in-use test of that id made after the last suspension point: a second CREATE for the same circuit id "
+              "(duplicate in flight, or forged - CREATE is plaintext) re-keys an established hop, and the originator's keys match nobody")
+
+
+def _reaching_defs(v: _View, e: ast.AST) -> list[tuple[ast.AST | None, ast.AST | None, int | None]]:
+    e = strip_cast(e)
+    if isinstance(e, ast.Name) and not is_param(v.fi, e.id) and local_defs(v.fi, e.id):
+        return list(local_defs(v.fi, e.id))
+    return [(None, e, None)]
+
+
+def _jointly_reach(v: _View, sb, sa, kb: list, ka: list, site_nodes: list) -> bool:
+    """
+    Some path reaches the site on which the last definition of the key local is statement sb and the last definition of the
+    address local is statement sa (None: the expression is not a local with definitions).  kb / ka: all defining statements.
+    """
+    cfg = v.cfg
+
+    def nodes(stmts, *, but=()):
+        return [n for s in stmts if not any(s is x for x in but) for n in cfg.nodes_for(s)]
+
+    nb = cfg.nodes_for(sb) if sb is not None else []
+    na = cfg.nodes_for(sa) if sa is not None else []
+    later = nodes(kb, but=(sb,)) + nodes(ka, but=(sa,))          # any of these after both definitions replaces one of them
+    later = [n for n in later if n not in nb and n not in na and n not in site_nodes]
+    if sb is None and sa is None:
+        return True
+    if sb is None or sa is None or sb is sa:
+        first = nb or na
+        return any(n in cfg.reach(first, cut_nodes=[x for x in later if x not in first]) for n in site_nodes)
+    b_kills_a, a_kills_b = any(sb is s for s in ka), any(sa is s for s in kb)
+    # sb first, then sa: nothing may redefine the key in between (sa itself must not), afterwards nothing may redefine either
+    if not a_kills_b:
+        mid = [n for n in nodes(kb, but=(sb,)) if n not in nb and n not in site_nodes]
+        if any(n in cfg.reach(nb, cut_nodes=mid) for n in na) and any(n in cfg.reach(na, cut_nodes=[x for x in later + nb if x not in na]) for n in site_nodes):
+            return True
+    if not b_kills_a:
+        mid = [n for n in nodes(ka, but=(sa,)) if n not in na and n not in site_nodes]
+        if any(n in cfg.reach(na, cut_nodes=mid) for n in nb) and any(n in cfg.reach(nb, cut_nodes=[x for x in later + na if x not in nb]) for n in site_nodes):
+            return True
+    return False
+
+
+def _target_pairs(v: _View, eb: ast.AST, ea: ast.AST, site, depth: int = 3) -> list[tuple[_View, ast.AST, ast.AST]]:
+    """(view, key expression, address expression) for every pair of definitions that can be current together at the site"""
+    rb, ra = _reaching_defs(v, eb), _reaching_defs(v, ea)
+    kb, ka = [s for s, _v, _i in rb if s is not None], [s for s, _v, _i in ra if s is not None]
+    rb, ra = [d for d in rb if d[0] is not site], [d for d in ra if d[0] is not site]     # the site's own definitions come after it
+    site_nodes = v.cfg.nodes_for(site) if isinstance(site, ast.AST) else [site]
+    out = []
+    for sb, vb, ib in rb:
+        for sa, va, ia in ra:
+            if not _jointly_reach(v, sb, sa, kb, ka, site_nodes):
+                continue
+            if ib is None and ia is None and vb is not None and va is not None:
+                # a definition that merely keeps the current value (`x, y = x, other`, left by inlining) stands for the definitions before it
+                keep_b = isinstance(strip_cast(vb), ast.Name) and isinstance(strip_cast(eb), ast.Name) and strip_cast(vb).id == strip_cast(eb).id
+                keep_a = isinstance(strip_cast(va), ast.Name) and isinstance(strip_cast(ea), ast.Name) and strip_cast(va).id == strip_cast(ea).id
+                if keep_b or keep_a:
+                    sub = _target_pairs(v, eb if keep_b else vb, ea if keep_a else va, sb if keep_b else sa, depth - 1) if depth > 0 else []
+                    if not sub:
+                        raise AnalysisError(f"undecided: definitions of the node to extend to in {v.fi.qualname} (`{norm(sb)[:80]}`)")
+                    out += sub
+                    continue
+                out.append((v, vb, va))
+                continue
+            call = strip_cast(vb) if vb is not None else None
+            kv = v.helper_of(call) if sb is sa and vb is va and isinstance(call, ast.Call) else None
+            if kv is None or depth <= 0 or ib is None or ia is None:
+                raise AnalysisError(f"undecided: key and address of the node to extend to are bound in {v.fi.qualname} in a way that is not followed "
+                                    f"(`{norm(sb or sa)[:80]}`)")
+            for r in [x for x in walk_no_nested(kv.fi.node) if isinstance(x, ast.Return)]:
+                t = strip_cast(r.value) if r.value is not None else None
+                if not isinstance(t, ast.Tuple) or max(ib, ia) >= len(t.elts) or any(isinstance(x, ast.Starred) for x in t.elts):
+                    raise AnalysisError(f"undecided: {kv.fi.qualname} does not return a tuple display at `{norm(r)[:60]}`")
+                out += _target_pairs(kv, t.elts[ib], t.elts[ia], r, depth - 1)
+    return out
+
+
+def _same_peer(v: _View, key: ast.AST, addr: ast.AST) -> bool:
+    """key is X.public_key.key_to_bin() and addr is X.address for one peer object X (a call-free expression over stable names)"""
+    key, addr = strip_cast(key), strip_cast(addr)
+    if not (isinstance(addr, ast.Attribute) and addr.attr == "address"):
+        return False
+    if not (isinstance(key, ast.Call) and not key.args and not key.keywords and isinstance(key.func, ast.Attribute) and key.func.attr == "key_to_bin"
+            and isinstance(key.func.value, ast.Attribute) and key.func.value.attr == "public_key"):
+        return False
+    x, y = strip_cast(addr.value), strip_cast(key.func.value.value)
+    if norm(x) != norm(y) or any(isinstance(n, (ast.Call, ast.Await, ast.NamedExpr)) for n in ast.walk(x)):
+        return False
+    for nm in {n.id for n in ast.walk(x) if isinstance(n, ast.Name)}:
+        if not is_param(v.fi, nm) and nm != "self" and len(local_defs(v.fi, nm)) != 1:
+            return False
+        if is_param(v.fi, nm) and local_defs(v.fi, nm):
+            return False
+    return True
+
+
+def _extend_names_one_node(ctx: Ctx, se: FuncInfo) -> None:
+    """
+    The extend request names the next node by key and, where the relay cannot know it, by address.  Both must belong to the
+    same peer: the relay connects to the address, the originator verifies (and lists) the key.
+    """
+    v = _View(ctx, se)
+    for c in calls(se, "ExtendPayload"):
+        pa = _pargs(c, ["circuit_id", "identifier", "node_public_key", "key", "node_addr"])
+        if pa is None or pa[4] is None:
+            continue
+        # the key that is named: the one the pending hop was built from (checked by the writer rule): key_from_public_bin(<B>)
+        keys = []
+        for st, t in stores(se, "circuit.unverified_hop"):
+            h = v.expand(st.value, keep=frozenset({"extend_hop_public_bin"})) if isinstance(st, (ast.Assign, ast.AnnAssign)) and st.value is not None else None
+            pe = strip_cast(arg(h, 0, "peer")) if isinstance(h, ast.Call) and chain(h.func) == "Hop" else None
+            k = strip_cast(arg(pe, 0, "key")) if isinstance(pe, ast.Call) and chain(pe.func) == "Peer" else None
+            if isinstance(k, ast.Call) and call_name(k) == "key_from_public_bin" and arg(k, 0) is not None:
+                keys.append(arg(k, 0))
+        if len(keys) != 1:
+            continue        # reported by the writer rule
+        bad = []
+        for pv, kb, ka in _target_pairs(v, keys[0], pa[4], c):
+            null_addr = const_value(strip_cast(ka)) == ("0.0.0.0", 0)
+            no_key = const_value(strip_cast(kb)) is not NOCONST and not const_value(strip_cast(kb))
+            if not (null_addr or no_key or _same_peer(pv, kb, ka)):
+                bad.append(f"key `{norm(kb)[:50]}` with address `{norm(ka)[:50]}`")
+        ctx.check(not bad, "selected-peer-key", se, c, "extend request: key and address of the next node belong to one peer (or no address is given)",
+                  "send_extend names the next node by the key of one peer and the address of another (" + "; ".join(bad) + "): the relay "
+                  "sends the create to that address, a node other than the selected peer joins, and the originator lists - and derives keys for - "
+                  "a peer that is not in the circuit")
+
+
+def _is_hops(e: ast.AST) -> bool:
+    return _snorm(e) == "self._hops"
+
+
+def _copies_hops(e: ast.AST) -> bool:
+    """e evaluates to a new sequence with exactly the elements of self._hops in order"""
+    e = strip_cast(e)
+    if _is_hops(e):
+        return True
+    if isinstance(e, (ast.List, ast.Tuple)) and len(e.elts) == 1 and isinstance(e.elts[0], ast.Starred):
+        return _copies_hops(e.elts[0].value)
+    if isinstance(e, ast.Call) and isinstance(e.func, ast.Name) and e.func.id in ("list", "tuple") and len(e.args) == 1 and not e.keywords:
+        return _copies_hops(e.args[0])
+    if isinstance(e, ast.Call) and isinstance(e.func, ast.Attribute) and e.func.attr == "copy" and not e.args and not e.keywords:
+        return _is_hops(e.func.value)
+    if isinstance(e, ast.Subscript) and isinstance(e.slice, ast.Slice) and e.slice.lower is None and e.slice.upper is None and e.slice.step is None:
+        return _is_hops(e.value)
+    if isinstance(e, (ast.GeneratorExp, ast.ListComp)) and len(e.generators) == 1:
+        g = e.generators[0]
+        return not g.ifs and not g.is_async and isinstance(g.target, ast.Name) and isinstance(e.elt, ast.Name) and e.elt.id == g.target.id \
+            and _copies_hops(g.iter)
+    return False
+
+
+def _is_tuple_copy_of_hops(e: ast.AST) -> bool:
+    e = strip_cast(e)
+    if isinstance(e, ast.Call) and isinstance(e.func, ast.Name) and e.func.id == "tuple" and len(e.args) == 1 and not e.keywords:
+        return _copies_hops(e.args[0])
+    return isinstance(e, ast.Tuple) and len(e.elts) == 1 and isinstance(e.elts[0], ast.Starred) and _copies_hops(e.elts[0].value)
+
+
+def _appends_only(fi: FuncInfo, st: ast.stmt) -> bool:
+    """st rebinds / extends self._hops to `old elements + new ones` (the established prefix is kept in place)"""
+    if isinstance(st, ast.AugAssign):
+        return isinstance(st.op, ast.Add) and _is_hops(st.target) and isinstance(strip_cast(st.value), (ast.List, ast.Tuple))
+    if isinstance(st, ast.Assign) and len(st.targets) == 1 and _is_hops(st.targets[0]):
+        v = resolve(fi, st.value)
+        if isinstance(v, ast.BinOp) and isinstance(v.op, ast.Add):
+            return _copies_hops(v.left) and isinstance(strip_cast(v.right), (ast.List, ast.Tuple)) and not isinstance(strip_cast(v.left), ast.Tuple)
+        if isinstance(v, ast.List) and v.elts and isinstance(v.elts[0], ast.Starred):
+            return _copies_hops(v.elts[0].value) and not any(isinstance(x, ast.Starred) for x in v.elts[1:])
+    return False
 
 
 def rule_append_only(ctx: Ctx) -> None:
@@ -373,22 +1491,30 @@ def rule_append_only(ctx: Ctx) -> None:
                     continue
                 par = getattr(node, "_parent", None)
                 if isinstance(node.ctx, ast.Store):
-                    ctx.check(fi.name == "__init__", "hops-append-only", fi, enclosing_stmt(node), "_hops assigned only in __init__",
+                    st = enclosing_stmt(node)
+                    ctx.check(fi.name == "__init__" or fi.name == "add_hop" and _appends_only(fi, st), "hops-append-only", fi, st,
+                              "_hops assigned only in __init__ (add_hop may extend it in place)",
                               "the hop list of a circuit is replaced after construction")
                 elif isinstance(par, ast.Attribute) and isinstance(getattr(par, "_parent", None), ast.Call):
-                    ctx.check(par.attr == "append" and fi.name == "add_hop", "hops-append-only", fi, enclosing_stmt(node),
+                    call = par._parent
+                    grows = par.attr == "append" or \
+                        par.attr == "extend" and len(call.args) == 1 and not call.keywords and isinstance(strip_cast(call.args[0]), (ast.List, ast.Tuple)) or \
+                        par.attr == "insert" and len(call.args) == 2 and not call.keywords and _snorm(call.args[0]) == "len(self._hops)"
+                    reads = par.attr in ("copy", "index", "count") or par.attr.startswith("__") and par.attr in ("__len__", "__iter__", "__getitem__", "__contains__")
+                    ctx.check(reads or grows and fi.name == "add_hop", "hops-append-only", fi, enclosing_stmt(node),
                               f"_hops.{par.attr} in {fi.name}", f"the hop list is mutated with `{par.attr}` (established hops can change)")
                 elif isinstance(par, ast.Subscript) and isinstance(par.ctx, (ast.Store, ast.Del)):
                     ctx.check(False, "hops-append-only", fi, enclosing_stmt(node), "no element assignment", "an established hop is overwritten")
     ctx.floor("hops-append-only", n, 4)
     hp = circ.methods.get("hops")
     rets = [r for r in walk_no_nested(hp.node) if isinstance(r, ast.Return)]
-    ok = len(rets) == 1 and norm(rets[0].value) == "tuple(self._hops)"
+    ok = bool(rets) and all(r.value is not None and (_is_tuple_copy_of_hops(resolve(hp, r.value)) or const_value(r.value) == ()) for r in rets)
     ctx.check(ok, "hops-append-only", hp, hp.node, "Circuit.hops returns a tuple copy", "Circuit.hops hands out the mutable hop list")
+    allowed = _closure_functions(_View(ctx, _ours(ctx)).closure())
     for m, fi, c in repo.callers_of_name("add_hop"):
         if fi is None:
             continue
-        ctx.check(fi.qualname == "TunnelCommunity._ours_on_created_extended" or fi.module.relpath.startswith("ipv8/REST/") and False, "hops-append-only", fi, c,
+        ctx.check(fi in allowed, "hops-append-only", fi, c,
                   f"add_hop called from {fi.qualname}", "hops are appended outside the verified create/extend completion")
     # hop.keys of established hops: stores to `.keys` on hops only in _ours_on_created_extended
     for m in repo.modules.values():
@@ -397,106 +1523,191 @@ def rule_append_only(ctx: Ctx) -> None:
         for node in ast.walk(m.tree):
             if isinstance(node, ast.Attribute) and node.attr == "keys" and isinstance(node.ctx, ast.Store):
                 fi = repo.function_of(node)
-                ctx.check(fi is not None and fi.qualname == "TunnelCommunity._ours_on_created_extended", "hops-append-only", fi or m.relpath,
+                ctx.check(fi is not None and fi in allowed, "hops-append-only", fi or m.relpath,
                           enclosing_stmt(node), "hop.keys assigned only on verified completion", "session keys of a hop are assigned elsewhere")
+
+
+def _ctor_field_param(repo, clsname: str, relpath: str, attr: str) -> int | None:
+    """index (among the call arguments) of the constructor parameter that `self.<attr>` is initialised from, if it is a plain copy"""
+    init = repo.method(clsname, "__init__", relpath)
+    sts = [s for s, t in stores(init, f"self.{attr}")]
+    if len(sts) != 1 or not isinstance(sts[0], (ast.Assign, ast.AnnAssign)) or sts[0].value is None:
+        return None
+    v = strip_cast(sts[0].value)
+    ps = init.params()
+    if isinstance(v, ast.Name) and v.id in ps and not local_defs(init, v.id):
+        return ps.index(v.id) - 1
+    return None
+
+
+def _route_installs(v: _View, table: str = "self.relay_from_to") -> list[tuple[ast.AST, ast.AST | None, ast.AST | None]]:
+    """(statement, key, value) - expanded - for every way view v puts an entry into the dict `table` (self.relay_from_to)"""
+    out = []
+
+    def alternatives(k: ast.AST, val: ast.AST | None):
+        # a key / value taken from a for-loop over a literal sequence of tuples stands for each of its elements
+        names = {x.id for e in (k, val) if e is not None for x in ast.walk(e) if isinstance(x, ast.Name)}
+        for nm in names:
+            d = local_defs(v.fi, nm)
+            if len(d) == 1 and isinstance(d[0][0], (ast.For, ast.AsyncFor)):
+                loop = d[0][0]
+                it = strip_cast(loop.iter)
+                tg = loop.target
+                if isinstance(it, (ast.Tuple, ast.List)) and it.elts and isinstance(tg, (ast.Tuple, ast.List)) \
+                        and all(isinstance(x, ast.Name) for x in tg.elts) \
+                        and all(isinstance(e, (ast.Tuple, ast.List)) and len(e.elts) == len(tg.elts) for e in it.elts):
+                    return [{t.id: v.expand(x) for t, x in zip(tg.elts, e.elts)} for e in it.elts]
+        return [{}]
+
+    def add(st, k, val):
+        for env in alternatives(k, val):
+            out.append((st, v.expand(k, env=env), v.expand(val, env=env) if val is not None else None))
+
+    for st in walk_no_nested(v.fi.node):
+        targets = st.targets if isinstance(st, (ast.Assign, ast.Delete)) else [st.target] if isinstance(st, (ast.AugAssign, ast.AnnAssign)) else []
+        for t in targets:
+            elts = t.elts if isinstance(t, (ast.Tuple, ast.List)) else [t]
+            for i, e in enumerate(elts):
+                if isinstance(e, ast.Subscript) and v.xn(e.value) == table and not isinstance(st, ast.Delete):
+                    val = None
+                    if isinstance(st, ast.Assign):
+                        if e is t:
+                            val = st.value
+                        elif isinstance(strip_cast(st.value), (ast.Tuple, ast.List)) and len(strip_cast(st.value).elts) == len(elts):
+                            val = strip_cast(st.value).elts[i]
+                    elif isinstance(st, ast.AnnAssign):
+                        val = st.value
+                    add(st, e.slice, val)
+    for c in calls(v.fi):
+        if not isinstance(c.func, ast.Attribute) or v.xn(c.func.value) != table:
+            continue
+        st = enclosing_stmt(c)
+        if c.func.attr == "__setitem__" and len(c.args) == 2 and not c.keywords:
+            add(st, c.args[0], c.args[1])
+        elif c.func.attr == "setdefault" and len(c.args) == 2 and not c.keywords:
+            add(st, c.args[0], c.args[1])
+        elif c.func.attr == "update":
+            d = resolve(v.fi, c.args[0]) if len(c.args) == 1 and not c.keywords else None
+            if not isinstance(d, ast.Dict) or any(k is None for k in d.keys):
+                raise AnalysisError(f"undecided: {table}.update(..) in {v.fi.qualname} with something other than a dict display")
+            for k, val in zip(d.keys, d.values):
+                add(st, k, val)
+    return out
 
 
 def rule_relay_pairing(ctx: Ctx) -> None:
     repo = ctx.repo
     oe = repo.method("TunnelCommunity", "on_extend", TC)
-    ctors = ctx.anchor(calls(oe, "CreateRequestCache"), "CreateRequestCache in on_extend")
-    c = ctors[0]
-    a = [norm(x) for x in c.args]
-    ok = a[:4] == ["self", "payload.identifier", "to_circuit_id", "circuit_id"] and norm(resolve(oe, c.args[3])) == "payload.circuit_id"
-    st = enclosing_stmt(c)
-    var = st.targets[0].id if isinstance(st, ast.Assign) else None
-    cps = calls(oe, "CreatePayload")
-    ok = ok and len(cps) == 1 and norm(arg(cps[0], 0)) == "to_circuit_id" and norm(arg(cps[0], 1)) == f"{var}.number" \
-        and norm(arg(cps[0], 3)) == "payload.key"
-    ok = ok and isinstance(resolve(oe, ast.Name(id="to_circuit_id", ctx=ast.Load())), ast.Call) and \
-        chain(resolve(oe, ast.Name(id="to_circuit_id", ctx=ast.Load())).func) == "self._generate_circuit_id"
+    ev = _View(ctx, oe)
+    pe = oe.params()[2]
+    ctors = ctx.anchor([(v, c) for v in ev.closure() for c in calls(v.fi, "CreateRequestCache")], "CreateRequestCache in on_extend")
+    v0, c = ctors[0]
+    pa = _pargs(c, ["community", "identifier", "to_circuit_id", "from_circuit_id", "peer", "to_peer"]) or [None] * 6
+    new_ids = [x for v in ev.closure() for x in calls(v.fi, "self._generate_circuit_id")]
+    ok = len(ctors) == 1 and len(new_ids) == 1 and [v0.xn(x) for x in pa[:4]] == ["self", f"{pe}.identifier", "self._generate_circuit_id()", f"{pe}.circuit_id"] \
+        and not local_defs(oe, pe)
+    ct = v0.xn(c)
+    cps = [(v, x) for v in ev.closure() for x in calls(v.fi, "CreatePayload")]
+    if ok and len(cps) == 1:
+        v1, cp = cps[0]
+        qa = _pargs(cp, ["circuit_id", "identifier", "node_public_key", "key"]) or [None] * 4
+        to_field = _ctor_field_param(repo, "CreateRequestCache", CA, "to_circuit_id")
+        # the forwarded create runs under the circuit id the relay just generated (the local, or the field the cache copied it to)
+        ok = (v1.xn(qa[0]) == "self._generate_circuit_id()" or v1.xn(qa[0]) == f"{ct}.to_circuit_id" and to_field == 2) \
+            and v1.xn(qa[1]) == f"{ct}.number" and v1.xn(qa[3]) == f"{pe}.key"
+    else:
+        ok = False
     ctx.check(ok, "relay-pairing", oe, c, "on_extend: cache(extend id, new to_circuit_id, from circuit) and create(to_circuit_id, cache.number, .., payload.key)",
               "the relay does not pair the forwarded create with the pending extend (identifier / circuit ids / key material)")
     oc = repo.method("TunnelCommunity", "on_created", TC)
-    cfg = ctx.cfg(oc)
-    pops = [p for p in calls(oc, "self.request_cache.pop") if chain(arg(p, 0)) == "CreateRequestCache"]
+    ov = _View(ctx, oc)
+    views = ov.closure()
+    pl = oc.params()[2]
+    pops = [(v, p) for v in views for p in calls(v.fi) if isinstance(p.func, ast.Attribute) and p.func.attr == "pop"
+            and v.xn(p.func.value) == "self.request_cache" and chain(arg(p, 0)) == "CreateRequestCache"]
     ctx.anchor(pops, "CreateRequestCache pop in on_created")
-    for p in pops:
-        facts = facts_at(cfg, p)
-        ok = any(f.op == "truthy" and f.pos and isinstance(f.left, ast.Call) and chain(f.left.func) == "self.request_cache.has"
-                 and chain(f.left.args[0]) == "CreateRequestCache" and norm(f.left.args[1]) == norm(arg(p, 1)) for f in facts) \
-            and norm(arg(p, 1)) == "payload.identifier"
-        ctx.check(ok, "relay-pairing", oc, p, "created consumed by payload.identifier only when such a cache exists (has before pop)",
-                  "a created answer is paired with a pending extend without checking the cache exists / by another key", [str(f) for f in facts])
+    for v, p in pops:
+        xf = _xfacts(v, p)
+        key = v.xn(arg(p, 1))
+        ok = key == f"{pl}.identifier" and not local_defs(oc, pl) and len(p.args) == 2 and not p.keywords and \
+            _fkey("truthy", True, f"self.request_cache.has(CreateRequestCache, {key})") in {_tkey(t) for t in xf}
+        ctx.check(ok, "relay-pairing", v.fi, p, "created consumed by payload.identifier only when such a cache exists (has before pop)",
+                  "a created answer is paired with a pending extend without checking the cache exists / by another key",
+                  [f"{op}{'' if pos else '-not'}: {norm(l)}" for op, pos, l, rt in xf])
     # ---- the routes installed for the new hop are those of the pending extend *as the relay stored it*
-    # locals bound (once) to the popped CreateRequestCache
-    req_names = {v for p in pops for v in _assigned_names(enclosing_stmt(p)) if len(local_defs(oc, v)) == 1}
+    req = pops[0][0].xn(pops[0][1])            # the popped CreateRequestCache, in on_created's terms
+    one_pop = len(pops) == 1
 
     def req_attr(e: ast.AST | None) -> str | None:
-        """attribute name if e is (an alias of) <popped request>.<attr>"""
-        e = resolve(oc, e) if e is not None else None
-        if isinstance(e, ast.Attribute) and isinstance(strip_cast(e.value), ast.Name) and strip_cast(e.value).id in req_names:
-            return e.attr
-        return None
+        """attribute name if the (expanded) e is <popped request>.<attr>"""
+        e = strip_cast(e) if e is not None else None
+        return e.attr if one_pop and isinstance(e, ast.Attribute) and norm(e.value) == req else None
 
     def from_exit_socket_keys(e: ast.AST | None) -> bool:
         """e is self.exit_sockets[<request>.from_circuit_id].hop.keys (the keys negotiated with the circuit owner's side)"""
-        e = resolve(oc, e) if e is not None else None
+        e = strip_cast(e) if e is not None else None
         if not (isinstance(e, ast.Attribute) and e.attr == "keys" and isinstance(e.value, ast.Attribute) and e.value.attr == "hop"):
             return False
-        sock = resolve(oc, e.value.value)
+        sock = strip_cast(e.value.value)
         if isinstance(sock, ast.Subscript):
             return chain(sock.value) == "self.exit_sockets" and req_attr(sock.slice) == "from_circuit_id"
         return isinstance(sock, ast.Call) and chain(sock.func) == "self.exit_sockets.get" and req_attr(arg(sock, 0)) == "from_circuit_id"
 
-    def still_exit_socket(f) -> bool:
+    def still_exit_socket(t: tuple) -> bool:
         """dominating fact: the origin circuit id of the pending extend is (still) an exit socket of this relay"""
-        if f.op == "in" and f.pos:
-            return req_attr(f.left) == "from_circuit_id" and chain(f.right) == "self.exit_sockets"
-        if f.op == "truthy" and f.pos or f.op == "is" and not f.pos and const_value(f.right) is None:
-            v = resolve(oc, f.left)
-            return isinstance(v, ast.Call) and chain(v.func) == "self.exit_sockets.get" and req_attr(arg(v, 0)) == "from_circuit_id" \
-                and (len(v.args) == 1 or const_value(v.args[1]) is None) and isinstance(f.left, ast.Name)
+        op, pos, l, rt = t
+        if op == "in" and pos:
+            return req_attr(l) == "from_circuit_id" and chain(rt) == "self.exit_sockets"
+        if op == "truthy" and pos or op == "is" and not pos and rt is not None and const_value(rt) is None:
+            return isinstance(l, ast.Call) and chain(l.func) == "self.exit_sockets.get" and req_attr(arg(l, 0)) == "from_circuit_id" \
+                and (len(l.args) == 1 or const_value(l.args[1]) is None) and not l.keywords
         return False
 
+    def socket_lookups(x: _View) -> list[ast.AST]:
+        """statements that evaluate self.exit_sockets[<request>.from_circuit_id]: completing one normally means the key is present"""
+        return [s for s in walk_no_nested(x.fi.node) if isinstance(s, ast.Subscript) and isinstance(s.ctx, ast.Load)
+                and x.xn(s) == f"self.exit_sockets[{req}.from_circuit_id]"]
+
     expect = {"to_circuit_id": ("from_circuit_id", "peer", "BACKWARD"), "from_circuit_id": ("to_circuit_id", "to_peer", "FORWARD")}
-    seen = set()
-    routes = stores(oc, "self.relay_from_to[]")
-    for st, t in routes:
-        facts = facts_at(cfg, st)
-        ka = req_attr(t.slice) if isinstance(t, ast.Subscript) else None
-        v = resolve(oc, st.value) if isinstance(st, ast.Assign) else None
-        ok = ka in expect and isinstance(v, ast.Call) and chain(v.func) == "RelayRoute"
-        if ok:
-            seen.add(ka)
-            other, peer, direction = expect[ka]
-            hp = resolve(oc, arg(v, 1, "hop"))
-            ok = req_attr(arg(v, 0, "circuit_id")) == other and isinstance(hp, ast.Call) and chain(hp.func) == "Hop" \
-                and req_attr(arg(hp, 0, "peer")) == peer and from_exit_socket_keys(arg(hp, 1, "keys")) \
-                and _snorm(arg(v, 2, "direction")) == direction
-        ok = ok and any(still_exit_socket(f) for f in facts)
-        ctx.check(ok, "relay-pairing", oc, st,
-                  "relay route registered under the pending extend's own to/from circuit id (from the popped CreateRequestCache), "
-                  "keyed from the origin's exit socket, only while the origin circuit still is an exit socket here",
-                  "on_created installs relay_from_to[...] under a circuit id taken from the answer (or not from the relay's own "
-                  "CreateRequestCache), or while the origin circuit is no longer an exit socket: a created answer carrying a foreign "
-                  "circuit id, or one that answers an earlier abandoned extend attempt, rewires an already established hop of a circuit "
-                  "whose originator is keyed with (and lists) another peer", [str(f) for f in facts])
-    ctx.check(seen == set(expect) and len(routes) == 2, "relay-pairing", oc, oc.node,
+    seen = []
+    for v in views:
+        for st, k, val in _route_installs(v):
+            xf = _xfacts(v, st)
+            ka = req_attr(k)
+            ok = ka in expect and isinstance(val, ast.Call) and chain(val.func) == "RelayRoute"
+            if ok:
+                seen.append(ka)
+                other, peer, direction = expect[ka]
+                hp = strip_cast(arg(val, 1, "hop"))
+                ok = req_attr(arg(val, 0, "circuit_id")) == other and isinstance(hp, ast.Call) and chain(hp.func) == "Hop" \
+                    and req_attr(arg(hp, 0, "peer")) == peer and from_exit_socket_keys(arg(hp, 1, "keys")) \
+                    and _snorm(arg(val, 2, "direction")) == direction
+            ok = ok and (any(still_exit_socket(t) for t in xf) or _always(v, v.cfg.nodes_for(st), socket_lookups))
+            ctx.check(ok, "relay-pairing", v.fi, st,
+                      "relay route registered under the pending extend's own to/from circuit id (from the popped CreateRequestCache), "
+                      "keyed from the origin's exit socket, only while the origin circuit still is an exit socket here",
+                      "on_created installs relay_from_to[...] under a circuit id taken from the answer (or not from the relay's own "
+                      "CreateRequestCache), or while the origin circuit is no longer an exit socket: a created answer carrying a foreign "
+                      "circuit id, or one that answers an earlier abandoned extend attempt, rewires an already established hop of a circuit "
+                      "whose originator is keyed with (and lists) another peer",
+                      [f"{op}{'' if pos else '-not'}: {norm(l)}{' / ' + norm(rt) if rt is not None else ''}" for op, pos, l, rt in xf])
+    ctx.check(sorted(seen) == sorted(expect), "relay-pairing", oc, oc.node,
               "on_created registers exactly the backward route under to_circuit_id and the forward route under from_circuit_id",
               "on_created does not register exactly one backward and one forward route for the pending extend")
-    # local name(s) of the backward route (the value stored under to_circuit_id); its circuit id is request.from_circuit_id (checked above)
-    bw_names = {st.value.id for st, t in routes if isinstance(t, ast.Subscript) and req_attr(t.slice) == "to_circuit_id"
-                and isinstance(st, ast.Assign) and isinstance(st.value, ast.Name) and len(local_defs(oc, st.value.id)) == 1}
-    pl = oc.params()[2]
-    for e in calls(oc, "ExtendedPayload"):
-        a0 = resolve(oc, arg(e, 0)) if e.args else None
-        origin_ok = req_attr(a0) == "from_circuit_id" or (
-            isinstance(a0, ast.Attribute) and a0.attr == "circuit_id" and isinstance(a0.value, ast.Name) and a0.value.id in bw_names)
-        ok = len(e.args) == 5 and not e.keywords and origin_ok and req_attr(e.args[1]) == "extend_identifier" and not local_defs(oc, pl) \
-            and [_rnorm(oc, x) for x in e.args[2:]] == [f"{pl}.key", f"{pl}.auth", f"{pl}.candidates_enc"]
-        ctx.check(ok, "relay-pairing", oc, e, "extended answer = (origin circuit, extend identifier, key, auth, candidates) forwarded unchanged",
-                  "the relay alters identifier or key material when forwarding created as extended")
+    for v in views:
+        for e in calls(v.fi, "ExtendedPayload"):
+            pa = _pargs(e, ["circuit_id", "identifier", "key", "auth", "candidates_enc"])
+            ok = pa is not None and all(x is not None for x in pa)
+            if ok:
+                a0 = v.expand(pa[0])
+                # the origin circuit: the request's from_circuit_id, or the circuit id of a RelayRoute constructed with it (the backward route)
+                origin_ok = req_attr(a0) == "from_circuit_id" or (
+                    isinstance(a0, ast.Attribute) and a0.attr == "circuit_id" and isinstance(strip_cast(a0.value), ast.Call)
+                    and chain(strip_cast(a0.value).func) == "RelayRoute" and req_attr(arg(strip_cast(a0.value), 0, "circuit_id")) == "from_circuit_id")
+                ok = origin_ok and req_attr(v.expand(pa[1])) == "extend_identifier" and not local_defs(oc, pl) \
+                    and [v.xn(x) for x in pa[2:]] == [f"{pl}.key", f"{pl}.auth", f"{pl}.candidates_enc"]
+            ctx.check(ok, "relay-pairing", v.fi, e, "extended answer = (origin circuit, extend identifier, key, auth, candidates) forwarded unchanged",
+                      "the relay alters identifier or key material when forwarding created as extended")
 
 
 def run(ctx: Ctx) -> None:
@@ -505,6 +1716,7 @@ def run(ctx: Ctx) -> None:
     rule_unverified_hop_writers(ctx)
     rule_append_only(ctx)
     rule_relay_pairing(ctx)
+    rule_responder_keying(ctx)
     ctx.assume("X25519 / crypto_auth / HKDF in ipv8_rust_tunnels and OpenSSL keys are sound: equal inputs give equal session keys, crypto_auth_verify is a MAC check (trusted)")
     ctx.assume("replay of an old answer is excluded only through the fresh packet_identifier of each attempt (checked), not by exploring schedules")
 
@@ -576,4 +1788,34 @@ WITNESSES = [
     {"name": "relay substitutes key material", "file": TC, "rule": "relay-pairing",
      "old": "                           ExtendedPayload(bw_relay.circuit_id, request.extend_identifier,\n                                           payload.key, payload.auth, payload.candidates_enc))",
      "new": "                           ExtendedPayload(bw_relay.circuit_id, payload.identifier,\n                                           payload.key, payload.auth, payload.candidates_enc))"},
+    {"name": "join_circuit keys a hop for a circuit id that already has an exit socket", "file": TC, "rule": "responder-keying",
+     "old": "        if circuit_id in self.circuits or circuit_id in self.relay_from_to or circuit_id in self.exit_sockets:\n            self.logger.warning(\"Refusing to join",
+     "new": "        if circuit_id in self.circuits or circuit_id in self.relay_from_to:\n            self.logger.warning(\"Refusing to join"},
+    {"name": "in-use test of the circuit id made before the await of the join policy", "rule": "responder-keying", "edits": [
+        {"file": TC,
+         "old": "        if circuit_id in self.circuits or circuit_id in self.relay_from_to or circuit_id in self.exit_sockets:\n            self.logger.warning(\"Refusing to join circuit %d: circuit id is already in use\", circuit_id)\n            return\n\n",
+         "new": ""},
+        {"file": TC,
+         "old": "        result = await self.should_join_circuit(payload, source_address)\n",
+         "new": "        if (payload.circuit_id in self.circuits or payload.circuit_id in self.relay_from_to\n                or payload.circuit_id in self.exit_sockets):\n            return\n        result = await self.should_join_circuit(payload, source_address)\n"}]},
+    {"name": "in-use test of the circuit id made by the caller after the await (still atomic with the installation)", "kind": "twin",
+     "rule": "responder-keying", "at": "join_circuit", "edits": [
+        {"file": TC,
+         "old": "        if circuit_id in self.circuits or circuit_id in self.relay_from_to or circuit_id in self.exit_sockets:\n            self.logger.warning(\"Refusing to join circuit %d: circuit id is already in use\", circuit_id)\n            return\n\n",
+         "new": ""},
+        {"file": TC,
+         "old": "        if result:\n            self.join_circuit(payload, source_address)\n",
+         "new": "        if result:\n            if (payload.circuit_id in self.circuits or payload.circuit_id in self.relay_from_to\n                    or payload.circuit_id in self.exit_sockets):\n                return\n            self.join_circuit(payload, source_address)\n"}]},
+    {"name": "a repeated create drops the established exit socket", "file": TC, "rule": "responder-keying",
+     "old": "        result = await self.should_join_circuit(payload, source_address)\n",
+     "new": "        self.exit_sockets.pop(payload.circuit_id, None)\n        result = await self.should_join_circuit(payload, source_address)\n"},
+    {"name": "extend names the key of one peer and the address of another", "file": TC, "rule": "selected-peer-key",
+     "old": "                    extend_hop_addr = peer.address\n", "new": "                    extend_hop_addr = choices[0].address\n"},
+    {"name": "verification moved into a decision helper whose failure result is ignored", "rule": "verify-before-accept", "edits": [
+        {"file": TC,
+         "old": "            shared_secret = self.crypto.verify_and_generate_shared_secret(hop.dh_secret, payload.key, payload.auth,\n                                                                          hop.peer.public_key.get_crypt_pk())\n            session_keys = self.crypto.generate_session_keys(shared_secret)\n            hop.keys = session_keys\n",
+         "new": "            session_keys = self._c08_witness_keys(hop, payload)\n            hop.keys = session_keys\n"},
+        {"file": TC,
+         "old": "    def _ours_on_created_extended(self, circuit_id: int, payload: CreatedPayload | ExtendedPayload) -> None:\n",
+         "new": "    def _c08_witness_keys(self, hop: Hop, payload: CreatedPayload | ExtendedPayload) -> SessionKeys | None:\n        try:\n            secret = self.crypto.verify_and_generate_shared_secret(hop.dh_secret, payload.key, payload.auth,\n                                                                   hop.peer.public_key.get_crypt_pk())\n            return self.crypto.generate_session_keys(secret)\n        except CryptoException:\n            return None\n\n    def _ours_on_created_extended(self, circuit_id: int, payload: CreatedPayload | ExtendedPayload) -> None:\n"}]},
 ]
